@@ -7,8 +7,8 @@
   params, `{param k}…{/param}` content params and `data="all"` / `data="$e"` (soy.$$augmentMap) — against a CALLEE
   ORACLE: `G name data`, what the generated function `name` returns, related by the hypothesis `CallRel` to the
   `call` of the reference context `R : RefCtx` (registry, entry data, `call` as in Spec/Eval) —, `{msg}` WITHOUT a
-  message bundle and without `{plural}` (the generator then writes the parts one after the other: raw text, HTML
-  tags, print and call placeholders; hypothesis `o.messages = none` of the generator theorems) — the expressions of
+  message bundle (the generator then writes the parts one after the other: raw text, HTML
+  tags, print and call placeholders, and for a `{plural}` a `switch` on its value; hypothesis `o.messages = none` of the generator theorems) — the expressions of
   Props/C04c inside them.
 
   1. `toCmds` translates the commands, in the generator scope they are met in, to the statement AST of
@@ -32,9 +32,12 @@ import SoyVerif.Lemmas.JsonValue
 
 namespace SoyVerif.Props.C04d
 open SoyVerif SoyVerif.Model SoyVerif.Model.JsGen SoyVerif.Spec.JsSemRef SoyVerif.Spec.JsStmt
-open SoyVerif.Props.C04c (toAst render RunsSc Same walkExpr_renders toJsV EnvRel)
+open SoyVerif.Props.C04c (toAst render RunsSc Same walkExpr_renders toJsV EnvRel Globals GlobalsAre IjRel GlobRel)
 
-variable {ent : Spec.Eval.Binds}
+set_option linter.unusedSectionVars false
+
+section Dev
+variable [Globals] {ent : Spec.Eval.Binds}
 
 
 /-! ## 1. translation -/
@@ -146,13 +149,26 @@ def letJoin (name : Bytes) (sc : Scope) (rb : Option (JsStmts × Scope)) : Optio
     | some rb => some (.cons (.varEmpty (sc.genname name).1) rb.1, rb.2.bind name (sc.genname name).1)
     | none => none
 
+/-- the `{ifempty}` block of a loop over `range(…)` (2e1528d): after the loop, outside its frame, `if (index == 0) {…}` -/
+def rangeIeJoin (idx : Bytes) (r0 : Option (JsStmts × Scope)) (ie : Option (Scope → Option (JsStmts × Scope))) :
+    Option (JsStmts × Scope) :=
+  match ie with
+  | none => r0
+  | some f =>
+    match r0 with
+    | none => none
+    | some r0 =>
+      match f r0.2 with
+      | some re => some (r0.1.append (.one (.ifZero idx re.1)), re.2)
+      | none => none
+
 /-- a loop command: `{foreach}` over a list, else `{for}` over a range -/
 def loopJoin (v : Bytes) (list : Expr) (sc : Scope) (rbEach : Option (JsStmts × Scope))
-    (ie : Option (Scope → Option (JsStmts × Scope))) (rbRange : Option (JsStmts × Scope)) (noIfEmpty : Bool) :
+    (ie : Option (Scope → Option (JsStmts × Scope))) (rbRange : Option (JsStmts × Scope)) :
     Option (JsStmts × Scope) :=
   match forcJoin v list sc rbEach ie with
   | some r => some r
-  | none => rangeJoin v list sc rbRange noIfEmpty
+  | none => rangeIeJoin (sc.pushForRange v).1.2.2.2 (rangeJoin v list sc rbRange true) ie
 
 /-- the first argument of the callee: `{}`, `opt_data` (`data="all"`) or the `data="$e"` expression -/
 def callBase (sc : Scope) (allData : Bool) (data : Option Expr) : Option DataBase :=
@@ -203,6 +219,34 @@ def phJoin (r1 : Option (JsStmts × Scope)) (rest : Scope → Option (JsStmts ×
     | some r2 => some (r1.1.append r2.1, r2.2)
     | none => none
 
+/-- one `{case n}` of a `{plural}` from the translations of its parts.  The generator opens NO frame for the body of a
+    case: the translation takes only bodies that leave the frames as they found them (print / call placeholders do) -/
+def pcaseJoin (sc : Scope) (v : Int) (rb : Option (JsStmts × Scope)) (rest : Scope → Option (JsPlural × Scope)) :
+    Option (JsPlural × Scope) :=
+  match rb with
+  | none => none
+  | some rb =>
+    if rb.2.stack = sc.stack then
+      (match rest rb.2 with
+        | some rr => some (.cons v rb.1 rr.1, rr.2)
+        | none => none)
+    else none
+
+/-- a `{plural}` part of a message (no bundle): the switch on its value, then the rest of the message -/
+def pluralJoin (sc : Scope) (j : Option JsExpr) (rc : Option (JsPlural × Scope)) (dflt rest : Scope → Option (JsStmts × Scope)) :
+    Option (JsStmts × Scope) :=
+  match j, rc with
+  | some j, some rc =>
+    (match dflt rc.2 with
+      | some rd =>
+        if rd.2.stack = sc.stack then
+          (match rest rd.2 with
+            | some rr => some (.cons (.pluralS j rc.1 rd.1) rr.1, rr.2)
+            | none => none)
+        else none
+      | none => none)
+  | _, _ => none
+
 section
 variable (ae : Autoescape)
 
@@ -231,7 +275,7 @@ mutual
         (match ifEmpty with
           | none => none
           | some ie => some (toBlock buf ie))
-        (toBody buf body (sc.pushForRange v).2) ifEmpty.isNone
+        (toBody buf body (sc.pushForRange v).2)
     | buf, .switch _ value cases, sc =>
       match toAst sc value, toCases buf cases sc with
       | some j, some rc => some (.one (.switchS j rc.1), rc.2)
@@ -242,6 +286,15 @@ mutual
     | buf, .call _ name allData data params, sc =>
       -- `{call name …}`: the content params are rendered into buffers of their own first
       callJoin buf name (callBase sc allData data) (toParams params sc)
+    | buf, .css _ e suffix, sc =>
+      -- `{css $e, name}`: the value of `e`, a hyphen, the name — unescaped; `{css name}`: the name
+      (match e with
+        | none => some (.one (.appendLit buf suffix), sc)
+        | some e =>
+          (match toAst sc e with
+            | some j => some (.cons (.appendCss buf j) (.one (.appendLit buf suffix)), sc)
+            | none => none))
+    | _, .debugger _, sc => some (.one .debuggerS, sc)
     | buf, .msg _ _ _ _ _ body, sc =>
       -- `{msg}` WITHOUT a message bundle: the parts one after the other (no goog.getMsg), in a frame of their own
       msgJoin (toParts buf body sc.push)
@@ -251,7 +304,12 @@ mutual
     | _, .nil, sc => some (.nil, sc)
     | buf, .text _ t r, sc => phJoin (some (.one (.appendLit buf t), sc)) (toParts buf r)
     | buf, .ph _ _ body r, sc => phJoin (toPh buf body sc) (toParts buf r)
-    | _, .plural .., _ => none
+    | buf, .plural _ _ value cases _ dflt r, sc =>
+      pluralJoin sc (toAst sc value) (toPCases buf cases sc) (toParts buf dflt) (toParts buf r)
+  /-- the `{case n}` clauses of a plural -/
+  def toPCases : Bytes → PluralCases → Scope → Option (JsPlural × Scope)
+    | _, .nil, sc => some (.nil, sc)
+    | buf, .cons _ v _ body rest, sc => pcaseJoin sc v (toParts buf body sc) (toPCases buf rest)
   def toPh : Bytes → MsgPhBody → Scope → Option (JsStmts × Scope)
     | buf, .htmlTag _ t, sc => some (.one (.appendLit buf t), sc)
     | buf, .cmd c, sc => toCmd buf c sc
@@ -363,6 +421,15 @@ mutual
     | .call b callee base params =>
       [.fixed (spaces ind), .ident b, .fixed b!" += ", (if es6 then .es6name callee else .qname callee), .fixed b!"("] ++
         dataPieces base params ++ [.fixed b!", opt_sb, opt_ijData);", .fixed [10]]
+    | .appendCss b e => [.fixed (spaces ind), .ident b, .fixed b!" += "] ++ render e ++ [.fixed b!" + '-';", .fixed [10]]
+    | .debuggerS => [.fixed (spaces ind), .fixed b!"debugger;", .fixed [10]]
+    | .pluralS e cases dflt =>
+      [.fixed (spaces ind), .fixed b!"switch ("] ++ render e ++ [.fixed b!") {", .fixed [10]] ++ renderPlural es6 (ind + 1) cases ++
+        [.fixed (spaces (ind + 1)), .fixed b!"default:", .fixed [10]] ++ renderStmts es6 (ind + 1 + 1) dflt ++
+        [.fixed (spaces ind), .fixed b!"}", .fixed [10]]
+    | .ifZero idx body =>
+      [.fixed (spaces ind), .fixed b!"if (", .ident idx, .fixed b!" == 0) {", .fixed [10]] ++ renderStmts es6 (ind + 1) body ++
+        [.fixed (spaces ind), .fixed b!"}", .fixed [10]]
     | .ifPos lim body els =>
       [.fixed (spaces ind), .fixed b!"if (", .ident lim, .fixed b!" > 0) {", .fixed [10]] ++ renderStmts es6 (ind + 1) body ++
         [.fixed (spaces ind), .fixed b!"} else {", .fixed [10]] ++ renderStmts es6 (ind + 1) els ++
@@ -378,6 +445,11 @@ mutual
     | .cons labels body rest =>
       labels.flatMap (fun j => [.fixed (spaces ind), .fixed b!"case "] ++ render j ++ [.fixed b!":", .fixed [10]]) ++
         renderStmts es6 (ind + 1) body ++ [.fixed (spaces (ind + 1)), .fixed b!"break;", .fixed [10]] ++ renderCases es6 ind rest
+  def renderPlural (es6 : Bool) (ind : Nat) : JsPlural → List Piece
+    | .nil => []
+    | .cons v body rest =>
+      [.fixed (spaces ind), .fixed b!"case ", .int v, .fixed b!":", .fixed [10]] ++ renderStmts es6 (ind + 1) body ++
+        [.fixed (spaces (ind + 1)), .fixed b!"break;", .fixed [10]] ++ renderPlural es6 ind rest
   def renderConds (es6 : Bool) (ind : Nat) : JsConds → Bool → List Piece
     | .nil, _ => []
     | .els body, first =>
@@ -494,7 +566,7 @@ end
 /-! ### one lemma per node kind (the recursive calls are hypotheses) -/
 
 section
-variable (sk : List Bytes → List Bytes) (o : Options)
+variable (sk : List Bytes → List Bytes) (o : Options) [GlobalsAre o]
 variable {ind : Nat} {buf : Bytes} {ae : Autoescape} {sc : Scope}
 
 theorem Runs.getSt {Q : St → Prop} {k : St → M Unit} {ps : List Piece}
@@ -676,9 +748,8 @@ theorem forcJoin_some {v : Bytes} {list : Expr} {sc : Scope} {rb : Option (JsStm
             exact ⟨re, hre, h.symm⟩
 
 theorem loopJoin_some {v : Bytes} {list : Expr} {sc : Scope} {rbEach rbRange : Option (JsStmts × Scope)}
-    {ie : Option (Scope → Option (JsStmts × Scope))} {noIE : Bool} {r : JsStmts × Scope}
-    (h : loopJoin v list sc rbEach ie rbRange noIE = some r) :
-    forcJoin v list sc rbEach ie = some r ∨ rangeJoin v list sc rbRange noIE = some r := by
+    {r : JsStmts × Scope} (h : loopJoin v list sc rbEach none rbRange = some r) :
+    forcJoin v list sc rbEach none = some r ∨ rangeJoin v list sc rbRange true = some r := by
   unfold loopJoin at h
   split at h
   · rename_i r' hf
@@ -686,6 +757,29 @@ theorem loopJoin_some {v : Bytes} {list : Expr} {sc : Scope} {rbEach rbRange : O
     subst h
     exact Or.inl hf
   · exact Or.inr h
+
+/-- a loop with an `{ifempty}` block: a foreach, or a range loop followed by `if (index == 0) {…}` -/
+theorem loopJoin_ie_some {v : Bytes} {list : Expr} {sc : Scope} {rbEach rbRange : Option (JsStmts × Scope)}
+    {f : Scope → Option (JsStmts × Scope)} {r : JsStmts × Scope} (h : loopJoin v list sc rbEach (some f) rbRange = some r) :
+    forcJoin v list sc rbEach (some f) = some r ∨
+      ∃ r0 re, rangeJoin v list sc rbRange true = some r0 ∧ f r0.2 = some re ∧
+        r = (r0.1.append (.one (.ifZero (sc.pushForRange v).1.2.2.2 re.1)), re.2) := by
+  unfold loopJoin at h
+  split at h
+  · rename_i r' hf
+    simp only [Option.some.injEq] at h
+    subst h
+    exact Or.inl hf
+  · simp only [rangeIeJoin] at h
+    cases hr0 : rangeJoin v list sc rbRange true with
+    | none => simp [hr0] at h
+    | some r0 =>
+      simp only [hr0] at h
+      cases hre : f r0.2 with
+      | none => simp [hre] at h
+      | some re =>
+        simp only [hre, Option.some.injEq] at h
+        exact Or.inr ⟨r0, re, rfl, hre, h.symm⟩
 
 theorem isRangeCall_some {list : Expr} {args : ExprList} (h : isRangeCall list = some args) :
     ∃ p, list = .func p b!"range" args := by
@@ -772,7 +866,7 @@ theorem caseJoin_some {sc : Scope} {values : List Expr} {rb : Option (JsStmts ×
           exact ⟨js, rr, rfl, rfl, h.symm⟩
 
 section
-variable (sk : List Bytes → List Bytes) (o : Options)
+variable (sk : List Bytes → List Bytes) (o : Options) [GlobalsAre o]
 variable {ind : Nat} {buf : Bytes} {ae : Autoescape} {sc : Scope}
 
 theorem body_runs (p : Nat) (cmds : CmdList) (st : JsStmts) (sc' : Scope)
@@ -832,6 +926,29 @@ theorem forc_range_runs (p : Nat) (v : Bytes) (list : Expr) (body : Block) (args
   try dsimp only
   exact (Runs.seq (Runs.setScope _) (Runs.seq Runs.indentP (Runs.seq (Runs.fx _) (Runs.seq (Runs.emit _) (Runs.seq (Runs.fx _) (Runs.seq (Runs.emits _) (Runs.seq (Runs.fx _) (Runs.seq Runs.nl (Runs.seq Runs.indentP (Runs.seq (Runs.fx _) (Runs.seq (Runs.emit _) (Runs.seq (Runs.fx _) (Runs.seq (Runs.emits _) (Runs.seq (Runs.fx _) (Runs.seq Runs.nl (Runs.seq Runs.indentP (Runs.seq (Runs.fx _) (Runs.seq (Runs.emit _) (Runs.seq (Runs.fx _) (Runs.seq (Runs.emits _) (Runs.seq (Runs.fx _) (Runs.seq (Runs.emit _) (Runs.seq (Runs.fx _) (Runs.seq (Runs.emit _) (Runs.seq (Runs.fx _) (Runs.seq (Runs.emit _) (Runs.seq (Runs.fx _) (Runs.seq (Runs.emit _) (Runs.seq (Runs.fx _) (Runs.seq (Runs.emit _) (Runs.seq (Runs.fx _) (Runs.seq (Runs.emit _) (Runs.seq (Runs.fx _) (Runs.seq Runs.nl (Runs.seq Runs.incIndent (Runs.seq hb (Runs.seq Runs.decIndent (Runs.seq Runs.indentP (Runs.seq (Runs.fx _) (Runs.seq Runs.nl (Runs.popScope))))))))))))))))))))))))))))))))))))))))).cast
     (by simp [rangeStmts, renderStmts, renderStmt, JsStmts.one])
+
+theorem forc_range_some_runs (p : Nat) (v : Bytes) (list : Expr) (body ie : Block) (args : ExprList) (l : Expr)
+    (jl ji jc : JsExpr) (rb re : JsStmts × Scope) (hr : isRangeCall list = some args) (hl : rangeLimit args = some l)
+    (hjl : toAst sc l = some jl) (hji : toAst sc (rangeInit args) = some ji) (hjc : toAst sc (rangeIncr args) = some jc)
+    (hb : Runs (At (ind + 1) buf ae (sc.pushForRange v).2) (At (ind + 1) buf ae rb.2) (walkBody sk o body)
+      (renderStmts (isEs6 o) (ind + 1) rb.1))
+    (hie : Runs (At (ind + 1) buf ae rb.2.pop) (At (ind + 1) buf ae re.2) (walkBlock sk o ie) (renderStmts (isEs6 o) (ind + 1) re.1)) :
+    Runs (At ind buf ae sc) (At ind buf ae re.2) (walkCmd sk o (.forc p v list body (some ie)))
+      (renderStmts (isEs6 o) ind ((rangeStmts (sc.pushForRange v).1 jl ji jc rb.1).append
+        (.one (.ifZero (sc.pushForRange v).1.2.2.2 re.1)))) := by
+  sunfold walkCmd
+  mred
+  rw [hr]
+  mred
+  try dsimp only
+  rw [hl]
+  mred
+  refine (Runs.seq Runs.atOther (Runs.block (walkExpr_renders sk o sc l jl hjl)
+    (Runs.block (walkExpr_renders sk o sc _ ji hji) (Runs.block (walkExpr_renders sk o sc _ jc hjc)
+      (Runs.getScope ?_))))).cast (List.nil_append _)
+  try dsimp only
+  exact (Runs.seq (Runs.setScope _) (Runs.seq Runs.indentP (Runs.seq (Runs.fx _) (Runs.seq (Runs.emit _) (Runs.seq (Runs.fx _) (Runs.seq (Runs.emits _) (Runs.seq (Runs.fx _) (Runs.seq Runs.nl (Runs.seq Runs.indentP (Runs.seq (Runs.fx _) (Runs.seq (Runs.emit _) (Runs.seq (Runs.fx _) (Runs.seq (Runs.emits _) (Runs.seq (Runs.fx _) (Runs.seq Runs.nl (Runs.seq Runs.indentP (Runs.seq (Runs.fx _) (Runs.seq (Runs.emit _) (Runs.seq (Runs.fx _) (Runs.seq (Runs.emits _) (Runs.seq (Runs.fx _) (Runs.seq (Runs.emit _) (Runs.seq (Runs.fx _) (Runs.seq (Runs.emit _) (Runs.seq (Runs.fx _) (Runs.seq (Runs.emit _) (Runs.seq (Runs.fx _) (Runs.seq (Runs.emit _) (Runs.seq (Runs.fx _) (Runs.seq (Runs.emit _) (Runs.seq (Runs.fx _) (Runs.seq (Runs.emit _) (Runs.seq (Runs.fx _) (Runs.seq Runs.nl (Runs.seq Runs.incIndent (Runs.seq hb (Runs.seq Runs.decIndent (Runs.seq Runs.indentP (Runs.seq (Runs.fx _) (Runs.seq Runs.nl (Runs.seq Runs.popScope (Runs.seq Runs.indentP (Runs.seq (Runs.fx _) (Runs.seq (Runs.emit _) (Runs.seq (Runs.fx _) (Runs.seq Runs.nl (Runs.seq Runs.incIndent (Runs.seq hie (Runs.seq Runs.decIndent (Runs.seq Runs.indentP (Runs.seq (Runs.fx _) Runs.nl))))))))))))))))))))))))))))))))))))))))))))))))))).cast
+    (by simp [rangeStmts, renderStmts, renderStmt, JsStmts.one, JsStmts.append])
 
 /-! ### switch -/
 
@@ -958,7 +1075,7 @@ theorem RunsV.cast {α : Type} {P Q : St → Prop} {m : M α} {a a' : α} {ps qs
     (ea : a = a') (e : ps = qs) : RunsV P Q m a' qs := ea ▸ e ▸ h
 
 section
-variable (sk : List Bytes → List Bytes) (o : Options)
+variable (sk : List Bytes → List Bytes) (o : Options) [GlobalsAre o]
 variable {ind : Nat} {buf : Bytes} {ae : Autoescape} {sc : Scope}
 
 theorem RunsV.getBuf {β : Type} {Q : St → Prop} {k : Bytes → M β} {b : β} {ps : List Piece}
@@ -1155,7 +1272,7 @@ theorem phJoin_some {r1 : Option (JsStmts × Scope)} {rest : Scope → Option (J
       exact ⟨a, b, rfl, hb, h.symm⟩
 
 section
-variable (sk : List Bytes → List Bytes) (o : Options)
+variable (sk : List Bytes → List Bytes) (o : Options) [GlobalsAre o]
 variable {ind : Nat} {buf : Bytes} {ae : Autoescape} {sc : Scope}
 
 theorem rawPart_runs (t : Bytes) :
@@ -1211,10 +1328,123 @@ theorem ph_cmd_runs (c : Cmd) (r : JsStmts × Scope)
 
 end
 
+/-! ### css, debugger -/
+
+section
+variable (sk : List Bytes → List Bytes) (o : Options) [GlobalsAre o]
+variable {ind : Nat} {buf : Bytes} {ae : Autoescape} {sc : Scope}
+
+theorem css_none_runs (p : Nat) (suffix : Bytes) :
+    Runs (At ind buf ae sc) (At ind buf ae sc) (walkCmd sk o (.css p none suffix))
+      (renderStmts (isEs6 o) ind (.one (.appendLit buf suffix))) := by
+  sunfold walkCmd
+  unfold writeRawText
+  exact (Runs.seq Runs.atOther (Runs.seq Runs.pure (Runs.seq Runs.indentP (Runs.getBuf
+    (Runs.seq (Runs.emit _) (Runs.seq (Runs.fx _) (Runs.seq (Runs.emit _) (Runs.fx _)))))))).cast
+    (by simp [renderStmts_one, renderStmt])
+
+theorem css_some_runs (p : Nat) (e : Expr) (suffix : Bytes) (j : JsExpr) (hj : toAst sc e = some j) :
+    Runs (At ind buf ae sc) (At ind buf ae sc) (walkCmd sk o (.css p (some e) suffix))
+      (renderStmts (isEs6 o) ind (.cons (.appendCss buf j) (.one (.appendLit buf suffix)))) := by
+  sunfold walkCmd
+  unfold writeRawText
+  have hv := walkExpr_renders sk o sc e j hj
+  exact (Runs.seq Runs.atOther (Runs.seq (Runs.seq Runs.indentP (Runs.getBuf (Runs.seq (Runs.emit _) (Runs.seq (Runs.fx _)
+    (Runs.seq (Runs.expr hv) (Runs.seq (Runs.fx _) Runs.nl)))))) (Runs.seq Runs.indentP (Runs.getBuf
+    (Runs.seq (Runs.emit _) (Runs.seq (Runs.fx _) (Runs.seq (Runs.emit _) (Runs.fx _)))))))).cast
+    (by simp [renderStmts, renderStmt, JsStmts.one])
+
+theorem debugger_runs (p : Nat) :
+    Runs (At ind buf ae sc) (At ind buf ae sc) (walkCmd sk o (.debugger p)) (renderStmts (isEs6 o) ind (.one .debuggerS)) := by
+  sunfold walkCmd
+  exact (Runs.seq Runs.atOther (Runs.seq Runs.indentP (Runs.seq (Runs.fx _) Runs.nl))).cast
+    (by simp [renderStmts_one, renderStmt])
+
+end
+
+/-! ### plural (no bundle) -/
+
+theorem pcaseJoin_some {sc : Scope} {v : Int} {rb : Option (JsStmts × Scope)} {rest : Scope → Option (JsPlural × Scope)}
+    {r : JsPlural × Scope} (h : pcaseJoin sc v rb rest = some r) :
+    ∃ rb' rr, rb = some rb' ∧ rb'.2.stack = sc.stack ∧ rest rb'.2 = some rr ∧ r = (.cons v rb'.1 rr.1, rr.2) := by
+  cases rb with
+  | none => simp [pcaseJoin] at h
+  | some rb' =>
+    simp only [pcaseJoin] at h
+    split at h
+    · rename_i hst
+      cases hr : rest rb'.2 with
+      | none => simp [hr] at h
+      | some rr =>
+        simp only [hr, Option.some.injEq] at h
+        exact ⟨rb', rr, rfl, hst, hr, h.symm⟩
+    · cases h
+
+theorem pluralJoin_some {sc : Scope} {j : Option JsExpr} {rc : Option (JsPlural × Scope)}
+    {dflt rest : Scope → Option (JsStmts × Scope)} {r : JsStmts × Scope} (h : pluralJoin sc j rc dflt rest = some r) :
+    ∃ j' rc' rd rr, j = some j' ∧ rc = some rc' ∧ dflt rc'.2 = some rd ∧ rd.2.stack = sc.stack ∧ rest rd.2 = some rr ∧
+      r = (.cons (.pluralS j' rc'.1 rd.1) rr.1, rr.2) := by
+  cases j with
+  | none => simp [pluralJoin] at h
+  | some j' =>
+    cases rc with
+    | none => simp [pluralJoin] at h
+    | some rc' =>
+      simp only [pluralJoin] at h
+      cases hd : dflt rc'.2 with
+      | none => simp [hd] at h
+      | some rd =>
+        simp only [hd] at h
+        split at h
+        · rename_i hst
+          cases hr : rest rd.2 with
+          | none => simp [hr] at h
+          | some rr =>
+            simp only [hr, Option.some.injEq] at h
+            exact ⟨j', rc', rd, rr, rfl, rfl, hd, hst, hr, h.symm⟩
+        · cases h
+
+section
+variable (sk : List Bytes → List Bytes) (o : Options) [GlobalsAre o]
+variable {ind : Nat} {buf : Bytes} {ae : Autoescape} {sc : Scope}
+
+theorem pcases_nil_runs :
+    Runs (At ind buf ae sc) (At ind buf ae sc) (walkPluralCases sk o .nil) (renderPlural (isEs6 o) ind .nil) := by
+  sunfold walkPluralCases
+  exact Runs.pure.cast (by simp [renderPlural])
+
+theorem pcases_cons_runs (p : Nat) (v : Int) (bp : Nat) (body : MsgParts) (rest : PluralCases) (rb : JsStmts × Scope)
+    (rr : JsPlural × Scope)
+    (hb : Runs (At (ind + 1) buf ae sc) (At (ind + 1) buf ae rb.2) (visitMsgNode sk o body) (renderStmts (isEs6 o) (ind + 1) rb.1))
+    (hr : Runs (At ind buf ae rb.2) (At ind buf ae rr.2) (walkPluralCases sk o rest) (renderPlural (isEs6 o) ind rr.1)) :
+    Runs (At ind buf ae sc) (At ind buf ae rr.2) (walkPluralCases sk o (.cons p v bp body rest))
+      (renderPlural (isEs6 o) ind (.cons v rb.1 rr.1)) := by
+  sunfold walkPluralCases
+  exact (Runs.seq Runs.indentP (Runs.seq (Runs.fx _) (Runs.seq (Runs.emit _) (Runs.seq (Runs.fx _) (Runs.seq Runs.nl
+    (Runs.seq Runs.incIndent (Runs.seq hb (Runs.seq Runs.indentP (Runs.seq (Runs.fx _) (Runs.seq Runs.nl
+    (Runs.seq Runs.decIndent hr))))))))))).cast (by simp [renderPlural])
+
+theorem parts_plural_runs (p : Nat) (vn : Bytes) (value : Expr) (cases : PluralCases) (dp : Nat) (dflt r : MsgParts) (j : JsExpr)
+    (rc : JsPlural × Scope) (rd rr : JsStmts × Scope) (hj : toAst sc value = some j)
+    (hc : Runs (At (ind + 1) buf ae sc) (At (ind + 1) buf ae rc.2) (walkPluralCases sk o cases) (renderPlural (isEs6 o) (ind + 1) rc.1))
+    (hd : Runs (At (ind + 1 + 1) buf ae rc.2) (At (ind + 1 + 1) buf ae rd.2) (visitMsgNode sk o dflt)
+      (renderStmts (isEs6 o) (ind + 1 + 1) rd.1))
+    (hr : Runs (At ind buf ae rd.2) (At ind buf ae rr.2) (visitMsgNode sk o r) (renderStmts (isEs6 o) ind rr.1)) :
+    Runs (At ind buf ae sc) (At ind buf ae rr.2) (visitMsgNode sk o (.plural p vn value cases dp dflt r))
+      (renderStmts (isEs6 o) ind (.cons (.pluralS j rc.1 rd.1) rr.1)) := by
+  sunfold visitMsgNode
+  have hv := walkExpr_renders sk o sc value j hj
+  exact (Runs.seq Runs.indentP (Runs.seq (Runs.fx _) (Runs.seq (Runs.expr hv) (Runs.seq (Runs.fx _) (Runs.seq Runs.nl
+    (Runs.seq Runs.incIndent (Runs.seq hc (Runs.seq Runs.indentP (Runs.seq (Runs.fx _) (Runs.seq Runs.nl
+    (Runs.seq Runs.incIndent (Runs.seq hd (Runs.seq Runs.decIndent (Runs.seq Runs.decIndent (Runs.seq Runs.indentP
+    (Runs.seq (Runs.fx _) (Runs.seq Runs.nl hr))))))))))))))))).cast (by simp [renderStmts, renderStmt])
+
+end
+
 /-! ### the recursion -/
 
 section
-variable (sk : List Bytes → List Bytes) (o : Options) (ae : Autoescape)
+variable (sk : List Bytes → List Bytes) (o : Options) [GlobalsAre o] (ae : Autoescape)
 -- `{msg}` is translated as the generator writes it WITHOUT a message bundle
 variable (ho : o.messages = none)
 include ho
@@ -1258,8 +1488,19 @@ mutual
       unfold toCmd at h
       obtain ⟨rb, hrb, rfl⟩ := msgJoin_some h
       exact msg_runs sk o ho p id m d bp body rb (visitMsgNode_renders body buf _ rb hrb ind)
-    | .css .., _, _, _, h, _ => by simp [toCmd] at h
-    | .debugger .., _, _, _, h, _ => by simp [toCmd] at h
+    | .css p none suffix, buf, sc, r, h, ind => by
+      simp only [toCmd, Option.some.injEq] at h; subst h
+      exact css_none_runs sk o p suffix
+    | .css p (some e) suffix, buf, sc, r, h, ind => by
+      simp only [toCmd] at h
+      split at h
+      · rename_i j hj
+        simp only [Option.some.injEq] at h; subst h
+        exact css_some_runs sk o p e suffix j hj
+      · cases h
+    | .debugger p, buf, sc, r, h, ind => by
+      simp only [toCmd, Option.some.injEq] at h; subst h
+      exact debugger_runs sk o p
     | .log .., _, _, _, h, _ => by simp [toCmd] at h
     | .forc p v list body none, buf, sc, r, h, ind => by
       unfold toCmd at h
@@ -1273,12 +1514,15 @@ mutual
           (walkBody_renders body buf _ rbv hrb (ind + 1))
     | .forc p v list body (some ie), buf, sc, r, h, ind => by
       unfold toCmd at h
-      have h := (loopJoin_some h).resolve_right (by intro h'; have := (rangeJoin_some h').2.1; simp at this)
-      obtain ⟨_, hr, j, rbv, hj, hrb, he⟩ := forcJoin_some h
-      simp only at he
-      obtain ⟨re, hre, rfl⟩ := he
-      exact forc_some_runs sk o p v list body ie j rbv re hr hj (walkBody_renders body buf _ rbv hrb (ind + 1 + 1))
-        (walkBlock_renders ie buf _ re hre (ind + 1))
+      rcases loopJoin_ie_some h with h | ⟨r0, re, hr0, hre, rfl⟩
+      · obtain ⟨_, hr, j, rbv, hj, hrb, he⟩ := forcJoin_some h
+        simp only at he
+        obtain ⟨re, hre, rfl⟩ := he
+        exact forc_some_runs sk o p v list body ie j rbv re hr hj (walkBody_renders body buf _ rbv hrb (ind + 1 + 1))
+          (walkBlock_renders ie buf _ re hre (ind + 1))
+      · obtain ⟨_, _, args, l, c, jl, ji, rbv, pc, hr, hl, hinc, _, hjl, hji, hrb, rfl⟩ := rangeJoin_some hr0
+        exact forc_range_some_runs sk o p v list body ie args l jl ji (.num c) rbv re hr hl hjl hji (by rw [hinc]; rfl)
+          (walkBody_renders body buf _ rbv hrb (ind + 1)) (walkBlock_renders ie buf _ re hre (ind + 1))
     | .switch p value cases, buf, sc, r, h, ind => by
       unfold toCmd at h
       split at h
@@ -1313,7 +1557,22 @@ mutual
       obtain ⟨a, b, ha, hb, rfl⟩ := phJoin_some h
       exact parts_ph_runs sk o p name body rest a b (walkPhBody_renders body buf sc a ha ind)
         (visitMsgNode_renders rest buf a.2 b hb ind)
-    | .plural .., _, _, _, h, _ => by simp [toParts] at h
+    | .plural p vn value cases dp dflt rest, buf, sc, r, h, ind => by
+      unfold toParts at h
+      obtain ⟨j, rc, rd, rr, hj, hrc, hrd, _, hrr, rfl⟩ := pluralJoin_some h
+      exact parts_plural_runs sk o p vn value cases dp dflt rest j rc rd rr hj (walkPluralCases_renders cases buf sc rc hrc (ind + 1))
+        (visitMsgNode_renders dflt buf rc.2 rd hrd (ind + 1 + 1)) (visitMsgNode_renders rest buf rd.2 rr hrr ind)
+  theorem walkPluralCases_renders : ∀ (cs : PluralCases) (buf : Bytes) (sc : Scope) (r : JsPlural × Scope),
+      toPCases ae buf cs sc = some r →
+      ∀ ind, Runs (At ind buf ae sc) (At ind buf ae r.2) (walkPluralCases sk o cs) (renderPlural (isEs6 o) ind r.1)
+    | .nil, buf, sc, r, h, ind => by
+      simp only [toPCases, Option.some.injEq] at h; subst h
+      exact pcases_nil_runs sk o
+    | .cons p v bp body rest, buf, sc, r, h, ind => by
+      unfold toPCases at h
+      obtain ⟨rb, rr, hrb, _, hrr, rfl⟩ := pcaseJoin_some h
+      exact pcases_cons_runs sk o p v bp body rest rb rr (visitMsgNode_renders body buf sc rb hrb (ind + 1))
+        (walkPluralCases_renders rest buf rb.2 rr hrr ind)
   theorem walkPhBody_renders : ∀ (b : MsgPhBody) (buf : Bytes) (sc : Scope) (r : JsStmts × Scope), toPh ae buf b sc = some r →
       ∀ ind, Runs (At ind buf ae sc) (At ind buf ae r.2) (walkPhBody sk o b) (renderStmts (isEs6 o) ind r.1)
     | .htmlTag p t, buf, sc, r, h, ind => by
@@ -1446,7 +1705,7 @@ def liftF (name : Bytes) (args : List Expr) (x : JOut) : JOut := x.bind (F name 
 /-- the text of a print: the Go renderer's directive loop (Props/C04b `goPrint`: left to right, the
     escape flag cleared by a cancelling directive, escaping last) on the JSON image of the value,
     then ToString -/
-def refPrint (dirs : List Directive) (v : Val) : Out Bytes :=
+def refPrintJs (dirs : List Directive) (v : Val) : Out Bytes :=
   match toJsV v with
   | none => .unspec
   | some jv =>
@@ -1456,6 +1715,20 @@ def refPrint (dirs : List Directive) (v : Val) : Out Bytes :=
       | none => .unspec)
     | some .error => .error
     | _ => .unspec
+
+/-- Spec/Eval's print without directives: ToString of the value (an undefined value is an error), HTML-escaped
+    unless autoescaping is off -/
+def specPlain (v : Val) : Out Bytes :=
+  if Spec.Eval.isUndef v then .error
+  else (Spec.Eval.showVal v).bind fun s => .val (if ae != .off then htmlEscape s else s)
+
+/-- the text of a print in the reference semantics: through the JSON image and the library functions `F` where that
+    says something; where it is silent (a value without a JSON image, a list or a map, a function `F` leaves open) and
+    the print has NO directive, what Spec/Eval prints -/
+def refPrint (dirs : List Directive) (v : Val) : Out Bytes :=
+  match refPrintJs F ae dirs v with
+  | .unspec => if dirs.isEmpty then specPlain ae v else .unspec
+  | o => o
 
 /-- the data a call passes on before its params: the caller's entry data (`data="all"`), the map `data="$e"`
     evaluates to, or nothing -/
@@ -1496,6 +1769,11 @@ mutual
         (refBase R allData data env).bind fun b =>
           (refParams params env).bind fun ps =>
             (R.call callee { entry := ps ++ b, ij := env.ij, globals := env.globals }).bind fun out => .val (out, env)
+    | .css _ e suffix, env =>
+      (match e with
+        | none => .val (suffix, env)
+        | some e => (Spec.Eval.eval env e).bind fun v => (Spec.Eval.showVal v).bind fun s => .val (s ++ [45] ++ suffix, env))
+    | .debugger _, env => .val ([], env)
     | .msg _ _ _ _ _ body, env =>
       -- no message bundle: the parts in order; the body is a scope of its own
       (refParts body env).bind fun r => .val (r.1, env)
@@ -1506,7 +1784,18 @@ mutual
     | .text _ t rest, env => (refParts rest env).bind fun r => .val (t ++ r.1, r.2)
     | .ph _ _ body rest, env =>
       (refPh body env).bind fun r1 => (refParts rest r1.2).bind fun r2 => .val (r1.1 ++ r2.1, r2.2)
-    | .plural .., _ => .unspec
+    | .plural _ _ value cases _ dflt rest, env =>
+      -- Spec/Eval.renderParts: the first `{case n}` with the value, else `{default}`
+      (Spec.Eval.eval env value).bind fun v =>
+        match v with
+        | .int i =>
+          (match refPlural cases i env with
+            | some r => r
+            | none => refParts dflt env).bind fun r1 => (refParts rest r1.2).bind fun r2 => .val (r1.1 ++ r2.1, r2.2)
+        | _ => .error
+  def refPlural : PluralCases → Int → SEnv → Option Spec.Eval.ROut
+    | .nil, _, _ => none
+    | .cons _ v _ body rest, i, env => if i == v then some (refParts body env) else refPlural rest i env
   def refPh : MsgPhBody → SEnv → Spec.Eval.ROut
     | .htmlTag _ t, env => .val (t, env)
     | .cmd c, env => refCmd c env
@@ -1881,8 +2170,18 @@ mutual
       have hst : rb.2.pop.stack = sc.stack := by simp only [Scope.pop]; rw [b2]; rfl
       have hn : sc.n ≤ rb.2.pop.n := b3
       exact ⟨scOk_of_stack hs hst hn, by rw [hst], hn⟩
-    | .css .., _, _, _, h, _ => by simp [toCmd] at h
-    | .debugger .., _, _, _, h, _ => by simp [toCmd] at h
+    | .css p none suffix, buf, sc, r, h, hs => by
+      simp only [toCmd, Option.some.injEq] at h; subst h
+      exact ⟨hs, rfl, Nat.le_refl _⟩
+    | .css p (some e) suffix, buf, sc, r, h, hs => by
+      simp only [toCmd] at h
+      split at h
+      · simp only [Option.some.injEq] at h; subst h
+        exact ⟨hs, rfl, Nat.le_refl _⟩
+      · cases h
+    | .debugger p, buf, sc, r, h, hs => by
+      simp only [toCmd, Option.some.injEq] at h; subst h
+      exact ⟨hs, rfl, Nat.le_refl _⟩
     | .log .., _, _, _, h, _ => by simp [toCmd] at h
     | .forc p v list body none, buf, sc, r, h, hs => by
       unfold toCmd at h
@@ -1903,16 +2202,23 @@ mutual
         exact ⟨scOk_of_stack hs hst hn, by rw [hst], hn⟩
     | .forc p v list body (some ie), buf, sc, r, h, hs => by
       unfold toCmd at h
-      have h := (loopJoin_some h).resolve_right (by intro h'; have := (rangeJoin_some h').2.1; simp at this)
-      obtain ⟨hv, _, j, rbv, _, hrb, he⟩ := forcJoin_some h
-      simp only at he
-      obtain ⟨re, hre, rfl⟩ := he
-      obtain ⟨p1, p2, p3⟩ := scOk_pushForEach hs v hv
-      obtain ⟨_, b2, b3⟩ := toBody_scope body buf _ rbv hrb p1
-      have hst : rbv.2.pop.stack = sc.stack := by simp only [Scope.pop]; rw [b2, p2]
-      have hn : sc.n ≤ rbv.2.pop.n := by simp only [Scope.pop]; omega
-      obtain ⟨c1, c2⟩ := toBlock_scope ie buf _ re hre (scOk_of_stack hs hst hn)
-      exact ⟨scOk_of_stack hs (c1.trans hst) (Nat.le_trans hn c2), by simp only [c1, hst], Nat.le_trans hn c2⟩
+      rcases loopJoin_ie_some h with h | ⟨r0, re, hr0, hre, rfl⟩
+      · obtain ⟨hv, _, j, rbv, _, hrb, he⟩ := forcJoin_some h
+        simp only at he
+        obtain ⟨re, hre, rfl⟩ := he
+        obtain ⟨p1, p2, p3⟩ := scOk_pushForEach hs v hv
+        obtain ⟨_, b2, b3⟩ := toBody_scope body buf _ rbv hrb p1
+        have hst : rbv.2.pop.stack = sc.stack := by simp only [Scope.pop]; rw [b2, p2]
+        have hn : sc.n ≤ rbv.2.pop.n := by simp only [Scope.pop]; omega
+        obtain ⟨c1, c2⟩ := toBlock_scope ie buf _ re hre (scOk_of_stack hs hst hn)
+        exact ⟨scOk_of_stack hs (c1.trans hst) (Nat.le_trans hn c2), by simp only [c1, hst], Nat.le_trans hn c2⟩
+      · obtain ⟨hv, _, args, l, c, jl, ji, rbv, pc, _, _, _, _, _, _, hrb, rfl⟩ := rangeJoin_some hr0
+        obtain ⟨p1, p2, p3⟩ := scOk_pushForRange hs v hv
+        obtain ⟨_, b2, b3⟩ := toBody_scope body buf _ rbv hrb p1
+        have hst : rbv.2.pop.stack = sc.stack := by simp only [Scope.pop]; rw [b2, p2]
+        have hn : sc.n ≤ rbv.2.pop.n := by simp only [Scope.pop]; omega
+        obtain ⟨c1, c2⟩ := toBlock_scope ie buf _ re hre (scOk_of_stack hs hst hn)
+        exact ⟨scOk_of_stack hs (c1.trans hst) (Nat.le_trans hn c2), by simp only [c1, hst], Nat.le_trans hn c2⟩
     | .switch p value cases, buf, sc, r, h, hs => by
       unfold toCmd at h
       split at h
@@ -1972,7 +2278,24 @@ mutual
       obtain ⟨a1, a2, a3⟩ := toPh_scope body buf sc a ha hs
       obtain ⟨b1, b2, b3⟩ := toParts_scope rest buf a.2 b hb a1
       exact ⟨b1, b2.trans a2, Nat.le_trans a3 b3⟩
-    | .plural .., _, _, _, h, _ => by simp [toParts] at h
+    | .plural p vn value cases dp dflt rest, buf, sc, r, h, hs => by
+      unfold toParts at h
+      obtain ⟨j, rc, rd, rr, _, hrc, hrd, hst, hrr, rfl⟩ := pluralJoin_some h
+      obtain ⟨c1, c2, c3⟩ := toPCases_scope cases buf sc rc hrc hs
+      obtain ⟨d1, _, d3⟩ := toParts_scope dflt buf rc.2 rd hrd c1
+      obtain ⟨e1, e2, e3⟩ := toParts_scope rest buf rd.2 rr hrr d1
+      exact ⟨e1, by rw [e2, hst], Nat.le_trans c3 (Nat.le_trans d3 e3)⟩
+  theorem toPCases_scope : ∀ (cs : PluralCases) (buf : Bytes) (sc : Scope) (r : JsPlural × Scope), toPCases ae buf cs sc = some r →
+      ScOk sc → ScOk r.2 ∧ r.2.stack = sc.stack ∧ sc.n ≤ r.2.n
+    | .nil, buf, sc, r, h, hs => by
+      simp only [toPCases, Option.some.injEq] at h; subst h
+      exact ⟨hs, rfl, Nat.le_refl _⟩
+    | .cons p v bp body rest, buf, sc, r, h, hs => by
+      unfold toPCases at h
+      obtain ⟨rb, rr, hrb, hst, hrr, rfl⟩ := pcaseJoin_some h
+      obtain ⟨a1, _, a3⟩ := toParts_scope body buf sc rb hrb hs
+      obtain ⟨b1, b2, b3⟩ := toPCases_scope rest buf rb.2 rr hrr a1
+      exact ⟨b1, b2.trans hst, Nat.le_trans a3 b3⟩
   theorem toPh_scope : ∀ (b : MsgPhBody) (buf : Bytes) (sc : Scope) (r : JsStmts × Scope), toPh ae buf b sc = some r → ScOk sc →
       ScOk r.2 ∧ r.2.stack.tail = sc.stack.tail ∧ sc.n ≤ r.2.n
     | .htmlTag p t, buf, sc, r, h, hs => by
@@ -2105,25 +2428,36 @@ mutual
       have hsc := toCmd_scope ae (.forc p v list body ie) buf sc r h hs
       unfold toCmd at h
       have hst : r.2.stack = sc.stack := by
-        rcases loopJoin_some h with h | h
-        · obtain ⟨hv, _, j, rbv, _, hrb, he⟩ := forcJoin_some h
-          obtain ⟨p1, p2, _⟩ := scOk_pushForEach hs v hv
-          obtain ⟨_, b2, _⟩ := toBody_scope ae body buf _ rbv hrb p1
-          have hst : rbv.2.pop.stack = sc.stack := by simp only [Scope.pop]; rw [b2, p2]
-          cases ie with
-          | none => simp only at he; subst he; exact hst
-          | some b =>
+        cases ie with
+        | none =>
+          rcases loopJoin_some h with h | h
+          · obtain ⟨hv, _, j, rbv, _, hrb, he⟩ := forcJoin_some h
+            obtain ⟨p1, p2, _⟩ := scOk_pushForEach hs v hv
+            obtain ⟨_, b2, _⟩ := toBody_scope ae body buf _ rbv hrb p1
+            have hst : rbv.2.pop.stack = sc.stack := by simp only [Scope.pop]; rw [b2, p2]
+            simp only at he; subst he; exact hst
+          · obtain ⟨hv, _, args, l, c, jl, ji, rbv, pc, _, _, _, _, _, _, hrb, rfl⟩ := rangeJoin_some h
+            obtain ⟨p1, p2, _⟩ := scOk_pushForRange hs v hv
+            obtain ⟨_, b2, _⟩ := toBody_scope ae body buf _ rbv hrb p1
+            simp only [Scope.pop]; rw [b2, p2]
+        | some b =>
+          rcases loopJoin_ie_some h with h | ⟨r0, re, hr0, hre, rfl⟩
+          · obtain ⟨hv, _, j, rbv, _, hrb, he⟩ := forcJoin_some h
+            obtain ⟨p1, p2, p3⟩ := scOk_pushForEach hs v hv
+            obtain ⟨_, b2, b3⟩ := toBody_scope ae body buf _ rbv hrb p1
+            have hst : rbv.2.pop.stack = sc.stack := by simp only [Scope.pop]; rw [b2, p2]
             simp only at he
             obtain ⟨re, hre, rfl⟩ := he
-            obtain ⟨_, _, p3⟩ := scOk_pushForEach hs v hv
-            obtain ⟨_, _, b3⟩ := toBody_scope ae body buf _ rbv hrb p1
             have hn : sc.n ≤ rbv.2.pop.n := by simp only [Scope.pop]; omega
             obtain ⟨c1, _⟩ := toBlock_scope ae b buf _ re hre (scOk_of_stack hs hst hn)
             exact c1.trans hst
-        · obtain ⟨hv, _, args, l, c, jl, ji, rbv, pc, _, _, _, _, _, _, hrb, rfl⟩ := rangeJoin_some h
-          obtain ⟨p1, p2, _⟩ := scOk_pushForRange hs v hv
-          obtain ⟨_, b2, _⟩ := toBody_scope ae body buf _ rbv hrb p1
-          simp only [Scope.pop]; rw [b2, p2]
+          · obtain ⟨hv, _, args, l, c, jl, ji, rbv, pc, _, _, _, _, _, _, hrb, rfl⟩ := rangeJoin_some hr0
+            obtain ⟨p1, p2, p3⟩ := scOk_pushForRange hs v hv
+            obtain ⟨_, b2, b3⟩ := toBody_scope ae body buf _ rbv hrb p1
+            have hst : rbv.2.pop.stack = sc.stack := by simp only [Scope.pop]; rw [b2, p2]
+            have hn : sc.n ≤ rbv.2.pop.n := by simp only [Scope.pop]; omega
+            obtain ⟨c1, _⟩ := toBlock_scope ae b buf _ re hre (scOk_of_stack hs hst hn)
+            exact c1.trans hst
       exact goodBuf_of_stack hg hst hsc.2.2
     | .letContent p name body, buf, sc, r, h, hs, g, hg => by
       unfold toCmd at h
@@ -2140,8 +2474,15 @@ mutual
       obtain ⟨_, b2, _⟩ := toParts_scope ae body buf sc.push rb hrb (scOk_push hs.2)
       have hst : rb.2.pop.stack = sc.stack := by simp only [Scope.pop]; rw [b2]; rfl
       exact goodBuf_of_stack hg hst hsc.2.2
-    | .css .., _, _, _, h, _, _, _ => by simp [toCmd] at h
-    | .debugger .., _, _, _, h, _, _, _ => by simp [toCmd] at h
+    | .css p none suffix, buf, sc, r, h, hs, g, hg => by
+      simp only [toCmd, Option.some.injEq] at h; subst h; exact hg
+    | .css p (some e) suffix, buf, sc, r, h, hs, g, hg => by
+      simp only [toCmd] at h
+      split at h
+      · simp only [Option.some.injEq] at h; subst h; exact hg
+      · cases h
+    | .debugger p, buf, sc, r, h, hs, g, hg => by
+      simp only [toCmd, Option.some.injEq] at h; subst h; exact hg
     | .log .., _, _, _, h, _, _, _ => by simp [toCmd] at h
     | .call p name allData data params, buf, sc, r, h, hs, g, hg => by
       unfold toCmd at h
@@ -2272,7 +2613,8 @@ theorem loopRel_keep {buf : Bytes} {sc sc' : Scope} {env : SEnv} {jenv jenv' : J
 theorem envRel_keep {buf : Bytes} {sc sc' : Scope} {env : SEnv} {jenv jenv' : JEnv} {lo : Nat}
     (hrel : EnvRel ent sc env jenv) (hk : Keeps buf lo jenv jenv') (hb : Bounded sc) (hlo : sc.n ≤ lo)
     (hfr : Fresh sc buf) (hst : sc'.stack = sc.stack) : EnvRel ent sc' env jenv' := by
-  refine ⟨?_, loopRel_keep hrel.2.1 hk hb hlo hfr hst, by rw [hk.1]; exact hrel.2.2⟩
+  refine ⟨?_, loopRel_keep hrel.2.1 hk hb hlo hfr hst, by rw [hk.1]; exact hrel.2.2.1, by rw [hk.2.1]; exact hrel.2.2.2.1,
+    hrel.2.2.2.2⟩
   intro k hkij hkd
   have hl : sc'.lookup k = sc.lookup k := by simp [Scope.lookup, hst]
   rw [hl]
@@ -2504,7 +2846,7 @@ theorem sres_bind_ok {r : SRes} {k : JEnv → SRes} {e : JEnv} (h : r.bind k = .
   | unspec => cases h
 
 section
-variable (F : Bytes → List Expr → JVal → JOut) (G : Bytes → JVal → JOut) (fuel : Nat)
+variable (F : Bytes → List Expr → JVal → JOut) (G : Callee) (fuel : Nat)
 
 theorem execStmts_append : ∀ (a b : JsStmts) (env : JEnv),
     execStmts F G fuel (a.append b) env = (execStmts F G fuel a env).bind (execStmts F G fuel b)
@@ -2574,7 +2916,7 @@ end
 /-! ### the induction: one lemma per node kind -/
 
 section
-variable (F : Bytes → List Expr → JVal → JOut) (G : Bytes → JVal → JOut) (R : RefCtx) (ae : Autoescape) (buf : Bytes)
+variable (F : Bytes → List Expr → JVal → JOut) (G : Callee) (R : RefCtx) (ae : Autoescape) (buf : Bytes)
 
 def CmdOk (c : Cmd) : Prop :=
   ∀ (fuel : Nat) (sc : Scope) (r : JsStmts × Scope) (env : SEnv) (jenv jenv' : JEnv) (out : Bytes),
@@ -2637,7 +2979,7 @@ theorem print_ok (p : Nat) (arg : Expr) (dirs : List Directive) : CmdOk F G R ae
       rw [hjv] at hrv
       rw [hrv] at hgo
       refine ⟨s, env, ?_, ?_, bufIs_setBuf _ _ _, keeps_setBuf _ _ _ _⟩
-      · simp only [refCmd, hv, Spec.Eval.Out.bind, refPrint, hvj, hgo, hs']
+      · simp only [refCmd, hv, Spec.Eval.Out.bind, refPrint, refPrintJs, hvj, hgo, hs']
       · exact envRel_keep hrel (keeps_setBuf buf sc.n jenv _) hs.2 (Nat.le_refl _) hg.2 rfl
     · cases h
   · cases h
@@ -3261,7 +3603,8 @@ theorem range_loop_ok {sc : Scope} (hs : ScOk sc) (hg : GoodBuf sc buf) (v : Byt
       e.locals.find? (·.1 == lv) = some (lv, .num a) →
       execLoopStep (execStmts F G fuel rb.1) lv xn xs xi k e = .ok e' →
       ∃ text, Spec.Eval.loopSpec (refBlock F R ae body) env v last (rangeItems a l s) idx = .val text ∧
-        BufIs buf e' (out ++ text) ∧ Keeps buf sc.n e e' := by
+        BufIs buf e' (out ++ text) ∧ Keeps buf sc.n e e' ∧
+        e'.locals.find? (·.1 == xi) = some (xi, .num ((idx + (rangeItems a l s).length : Nat) : Int)) := by
   have uN : IsUse b!"Limit" := Or.inr (Or.inr (Or.inl rfl))
   have uS : IsUse b!"Step" := Or.inr (Or.inr (Or.inr (Or.inr rfl)))
   have uI : IsUse b!"Index" := Or.inr (Or.inr (Or.inr (Or.inl rfl)))
@@ -3367,15 +3710,18 @@ theorem range_loop_ok {sc : Scope} (hs : ScOk sc) (hg : GoodBuf sc buf) (v : Byt
       have h3c : (setLocal (setLocal eb lv (.num (a + s))) xi (.num ((idx + 1 : Nat) : Int))).locals.find? (·.1 == lv) =
           some (lv, .num (a + s)) := by
         rw [find_setLocal_ne _ xi lv _ ne_lv_xi.symm]; exact find_setLocal_eq _ _ _
-      obtain ⟨tr, htr, hb', hk'⟩ := ih (a + s) (idx + 1) _ e' (out ++ ti) hexa' hexi' hlen2 hrel_c hb_c h2c hsc (find_setLocal_eq _ _ _) h3c hx
-      refine ⟨ti ++ tr, ?_, by rw [← List.append_assoc]; exact hb', hk_ec.trans hk' (Nat.le_refl _)⟩
-      rw [hitems]
-      simp only [Spec.Eval.loopSpec, hti, htr, Spec.Eval.Out.bind]
+      obtain ⟨tr, htr, hb', hk', hfi⟩ := ih (a + s) (idx + 1) _ e' (out ++ ti) hexa' hexi' hlen2 hrel_c hb_c h2c hsc (find_setLocal_eq _ _ _) h3c hx
+      refine ⟨ti ++ tr, ?_, by rw [← List.append_assoc]; exact hb', hk_ec.trans hk' (Nat.le_refl _), ?_⟩
+      · rw [hitems]
+        simp only [Spec.Eval.loopSpec, hti, htr, Spec.Eval.Out.bind]
+      · rw [hfi, hitems, List.length_cons]
+        have : idx + 1 + (rangeItems (a + s) l s).length = idx + ((rangeItems (a + s) l s).length + 1) := by omega
+        rw [this]
     · have : decide (a < l) = false := by simpa using hlt
       simp only [this, toBoolean, Bool.false_eq_true, if_false, SRes.ok.injEq] at hx
       subst hx
       rw [rangeItems_done a l s hspos hlt]
-      exact ⟨[], by simp [Spec.Eval.loopSpec], by simpa using hb, Keeps.refl _ _ _⟩
+      exact ⟨[], by simp [Spec.Eval.loopSpec], by simpa using hb, Keeps.refl _ _ _, by simpa using hix⟩
 
 /-- a loop that completes has compared two numbers -/
 theorem loop_first {body : JEnv → SRes} {i lim step idx : Bytes} {k : Nat} {e e' : JEnv} {vi vl : JVal}
@@ -3392,12 +3738,18 @@ theorem loop_first {body : JEnv → SRes} {i lim step idx : Bytes} {k : Nat} {e 
     cases vi <;> cases vl <;> simp [binop] at hc
     exact ⟨_, _, rfl, rfl⟩
 
-theorem range_ok (p : Nat) (v : Bytes) (list : Expr) (body : Block) (ihb : BodyOk F G R ae buf body) :
+/-- a range loop that completes: the list Spec/Eval loops over, the text of the loop, and the index local — the number of
+    iterations -/
+theorem range_core (v : Bytes) (list : Expr) (body : Block) (ihb : BodyOk F G R ae buf body) :
     ∀ (fuel : Nat) (sc : Scope) (r : JsStmts × Scope) (env : SEnv) (jenv jenv' : JEnv) (out : Bytes),
       rangeJoin v list sc (toBody ae buf body (sc.pushForRange v).2) true = some r → ScOk sc → GoodBuf sc buf → EnvRel R.entry sc env jenv →
       BufIs buf jenv out → execStmts F G fuel r.1 jenv = .ok jenv' →
-      ∃ text env', refCmd F R ae (.forc p v list body none) env = .val (text, env') ∧ EnvRel R.entry r.2 env' jenv' ∧
-        BufIs buf jenv' (out ++ text) ∧ Keeps buf sc.n jenv jenv' := by
+      ∃ xs text, Spec.Eval.eval env list = .val (.list xs) ∧
+        (match xs with
+          | [] => text = []
+          | x :: xs' => Spec.Eval.loopSpec (refBlock F R ae body) env v xs'.length (x :: xs') 0 = .val text) ∧
+        EnvRel R.entry r.2 env jenv' ∧ BufIs buf jenv' (out ++ text) ∧ Keeps buf sc.n jenv jenv' ∧
+        jenv'.locals.find? (·.1 == (sc.pushForRange v).1.2.2.2) = some ((sc.pushForRange v).1.2.2.2, .num (xs.length : Int)) := by
   intro fuel sc r env jenv jenv' out h hs hg hrel hb hx
   obtain ⟨hv, _, args, l, c, jl, ji, rbv, pc, hr, hl, hinc, hpos, hjl, hji, hrb, rfl⟩ := rangeJoin_some h
   obtain ⟨pf, rfl⟩ := isRangeCall_some hr
@@ -3482,7 +3834,7 @@ theorem range_ok (p : Nat) (v : Bytes) (list : Expr) (body : Block) (ihb : BodyO
     rw [find_setLocal_ne _ _ buf _ (nb _ uI).symm, find_setLocal_ne _ _ buf _ (nb _ u0).symm,
       find_setLocal_ne _ _ buf _ (nb _ uS).symm, find_setLocal_ne _ _ buf _ (nb _ uN).symm]
     exact hb
-  obtain ⟨text, ht, hb', hk'⟩ := range_loop_ok F G R ae buf hs hg v hv body rbv hrb ihb env lim c hpos fuel
+  obtain ⟨text, ht, hb', hk', hfi⟩ := range_loop_ok F G R ae buf hs hg v hv body rbv hrb ihb env lim c hpos fuel
     ((rangeItems a lim c).length - 1) _ _ _ _ rfl rfl rfl rfl fuel a 0 _ e3 out hexa (by decide)
     (fun hlt => by rw [rangeItems_step a lim c hpos hlt]; simp) hrel4 hb4 fN fS (find_setLocal_eq _ _ _) fV h3
   have hk := k1234.trans hk' (Nat.le_refl _)
@@ -3492,17 +3844,31 @@ theorem range_ok (p : Nat) (v : Bytes) (list : Expr) (body : Block) (ihb : BodyO
     simp only [Scope.pop]; rw [b2, p2]
   have hev : Spec.Eval.eval env (.func pf b!"range" args) = .val (.list (rangeItems a lim c)) := by
     rw [range_eval env pf args l a lim c hl hvinit hvlim (by rw [hinc]; simp [Spec.Eval.eval]), rangeSpec_val a lim c hpos]
-  refine ⟨text, env, ?_, envRel_keep hrel hk hs.2 (Nat.le_refl _) hg.2 hst, hb', hk⟩
-  cases hitems : rangeItems a lim c with
-  | nil =>
-    rw [hitems] at ht
-    simp only [Spec.Eval.loopSpec, Out.val.injEq] at ht
-    subst ht
-    simp [refCmd, hev, hitems, Spec.Eval.Out.bind]
-  | cons x xs' =>
-    rw [hitems] at ht
-    have ht' : Spec.Eval.loopSpec (refBlock F R ae body) env v xs'.length (x :: xs') 0 = .val text := by simpa using ht
-    simp [refCmd, hev, hitems, Spec.Eval.Out.bind, ht']
+  refine ⟨rangeItems a lim c, text, hev, ?_, envRel_keep hrel hk hs.2 (Nat.le_refl _) hg.2 hst, hb', hk, ?_⟩
+  · cases hitems : rangeItems a lim c with
+    | nil =>
+      rw [hitems] at ht
+      simp only [Spec.Eval.loopSpec, Out.val.injEq] at ht
+      exact ht.symm
+    | cons x xs' =>
+      rw [hitems] at ht
+      simpa using ht
+  · have hnm : (sc.pushForRange v).1.2.2.2 = Scope.jsname v b!"Index" (sc.n + 1) := rfl
+    rw [hnm]
+    simpa using hfi
+
+theorem range_ok (p : Nat) (v : Bytes) (list : Expr) (body : Block) (ihb : BodyOk F G R ae buf body) :
+    ∀ (fuel : Nat) (sc : Scope) (r : JsStmts × Scope) (env : SEnv) (jenv jenv' : JEnv) (out : Bytes),
+      rangeJoin v list sc (toBody ae buf body (sc.pushForRange v).2) true = some r → ScOk sc → GoodBuf sc buf → EnvRel R.entry sc env jenv →
+      BufIs buf jenv out → execStmts F G fuel r.1 jenv = .ok jenv' →
+      ∃ text env', refCmd F R ae (.forc p v list body none) env = .val (text, env') ∧ EnvRel R.entry r.2 env' jenv' ∧
+        BufIs buf jenv' (out ++ text) ∧ Keeps buf sc.n jenv jenv' := by
+  intro fuel sc r env jenv jenv' out h hs hg hrel hb hx
+  obtain ⟨xs, text, hev, ht, hrel', hb', hk, _⟩ := range_core F G R ae buf v list body ihb fuel sc r env jenv jenv' out h hs hg hrel hb hx
+  refine ⟨text, env, ?_, hrel', hb', hk⟩
+  cases xs with
+  | nil => simp only at ht; subst ht; simp [refCmd, hev, Spec.Eval.Out.bind]
+  | cons x xs' => simp only at ht; simp [refCmd, hev, Spec.Eval.Out.bind, ht]
 
 /-- `var xList = list; var xLimit = xList.length;` and then the loop -/
 theorem foreach_core {sc : Scope} (hs : ScOk sc) (hg : GoodBuf sc buf) (v : Bytes) (hv : v.contains 36 = false) (list : Expr) (j : JsExpr)
@@ -3617,7 +3983,49 @@ theorem forc_some_ok (p : Nat) (v : Bytes) (list : Expr) (body ie : Block) (ihb 
     (ihe : BlockOk F G R ae buf ie) : CmdOk F G R ae buf (.forc p v list body (some ie)) := by
   intro fuel sc r env jenv jenv' out h hs hg hrel hb hx
   unfold toCmd at h
-  have h := (loopJoin_some h).resolve_right (by intro h'; have := (rangeJoin_some h').2.1; simp at this)
+  rcases loopJoin_ie_some h with h | ⟨r0, re, hr0, hre, rfl⟩
+  case inr =>
+    -- a range loop, then `if (index == 0) {…}` outside its frame
+    rw [execStmts_append] at hx
+    obtain ⟨e1, hx1, hx2⟩ := sres_bind_ok hx
+    obtain ⟨xs, text, hev, ht, hrel1, hb1, hk1, hfi⟩ := range_core F G R ae buf v list body ihb fuel sc r0 env jenv e1 out hr0 hs hg hrel hb hx1
+    obtain ⟨hv, _, args, l, c, jl, ji, rbv, pc, _, _, _, _, _, _, hrb, hr0e⟩ := rangeJoin_some hr0
+    have hst : r0.2.stack = sc.stack := by
+      rw [hr0e]
+      obtain ⟨p1, p2, _⟩ := scOk_pushForRange hs v hv
+      obtain ⟨_, b2, _⟩ := toBody_scope ae body buf _ rbv hrb p1
+      simp only [Scope.pop]; rw [b2, p2]
+    have hn : sc.n ≤ r0.2.n := by
+      rw [hr0e]
+      obtain ⟨p1, _, p3⟩ := scOk_pushForRange hs v hv
+      obtain ⟨_, _, b3⟩ := toBody_scope ae body buf _ rbv hrb p1
+      simp only [Scope.pop]; omega
+    have hs' : ScOk r0.2 := scOk_of_stack hs hst hn
+    obtain ⟨c1, c2⟩ := toBlock_scope ae ie buf _ re hre hs'
+    rw [execStmts_one] at hx2
+    simp only [execStmt] at hx2
+    obtain ⟨cv, hcv, hx2⟩ := withVal_ok hx2
+    have hcz : eval e1 (.loopFirst (sc.pushForRange v).1.2.2.2) = .val (.bool ((xs.length : Int) == 0)) := by
+      simp [eval, localNum, hfi]
+    rw [hcz] at hcv
+    simp only [JOut.val.injEq] at hcv
+    subst hcv
+    cases xs with
+    | nil =>
+      simp only [List.length_nil, Int.natCast_zero, beq_self_eq_true, toBoolean, if_true] at hx2
+      simp only at ht
+      subst ht
+      obtain ⟨t2, ht2, hb2, hk2⟩ := ihe fuel _ re env e1 jenv' (out ++ []) hre hs' (goodBuf_of_stack hg hst hn) hrel1 hb1 hx2
+      have hk := hk1.trans (hk2.mono hn) (Nat.le_refl _)
+      refine ⟨t2, env, ?_, envRel_keep hrel hk hs.2 (Nat.le_refl _) hg.2 (c1.trans hst), by simpa using hb2, hk⟩
+      simp [refCmd, hev, Spec.Eval.Out.bind, ht2]
+    | cons x xs' =>
+      have hne : ((((x :: xs').length : Nat) : Int) == 0) = false := by simp; omega
+      simp only [hne, toBoolean, Bool.false_eq_true, if_false, SRes.ok.injEq] at hx2
+      subst hx2
+      simp only at ht
+      refine ⟨text, env, ?_, envRel_stack hrel1 c1, hb1, hk1⟩
+      simp [refCmd, hev, Spec.Eval.Out.bind, ht]
   obtain ⟨hv, _, j, rbv, hj, hrb, he⟩ := forcJoin_some h
   simp only at he
   obtain ⟨re, hre, rfl⟩ := he
@@ -3671,6 +4079,48 @@ theorem forc_some_ok (p : Nat) (v : Bytes) (list : Expr) (body ie : Block) (ihb 
     | cons x xs' => simp only [List.length_cons] at hlen; omega
 
 /-! ### a content block: the body writes to a buffer of its own -/
+
+/-! ### css, debugger -/
+
+theorem css_none_ok (p : Nat) (suffix : Bytes) : CmdOk F G R ae buf (.css p none suffix) := by
+  intro fuel sc r env jenv jenv' out h hs hg hrel hb hx
+  have := rawText_ok F G R ae buf p suffix fuel sc r env jenv jenv' out (by simpa [toCmd] using h) hs hg hrel hb hx
+  simpa [refCmd] using this
+
+theorem css_some_ok (p : Nat) (e : Expr) (suffix : Bytes) : CmdOk F G R ae buf (.css p (some e) suffix) := by
+  intro fuel sc r env jenv jenv' out h hs hg hrel hb hx
+  simp only [toCmd] at h
+  split at h
+  · rename_i j hj
+    simp only [Option.some.injEq] at h; subst h
+    simp only [execStmts] at hx
+    obtain ⟨e1, hx1, hx2⟩ := sres_bind_ok hx
+    simp only [execStmt] at hx1
+    obtain ⟨jv, hjv, hx1⟩ := withVal_ok hx1
+    obtain ⟨v, hv, hvj⟩ := C04c.gen_correct_refs_partial sc env jenv hrel e j jv hj hjv
+    cases hs' : toStr? jv with
+    | none => simp [hs'] at hx1
+    | some s =>
+      simp only [hs'] at hx1
+      obtain ⟨s1, hs1, rfl⟩ := appendTo_ok hb hx1
+      simp only [toStr?, Option.some.injEq] at hs1; subst hs1
+      have k1 := keeps_setBuf buf sc.n jenv (.str (out ++ (s ++ [45])))
+      have hrel1 : EnvRel R.entry sc env (setLocal jenv buf (.str (out ++ (s ++ [45])))) :=
+        envRel_keep hrel k1 hs.2 (Nat.le_refl _) hg.2 rfl
+      obtain ⟨t2, env2, ht2, hrel2, hb2, hk2⟩ := rawText_ok F G R ae buf p suffix fuel sc (.one (.appendLit buf suffix), sc) env _ jenv'
+        (out ++ (s ++ [45])) (by simp [toCmd]) hs hg hrel1 (bufIs_setBuf _ _ _) hx2
+      simp only [refCmd, Out.val.injEq, Prod.mk.injEq] at ht2
+      obtain ⟨rfl, rfl⟩ := ht2
+      refine ⟨s ++ [45] ++ suffix, env, ?_, hrel2, by simpa [List.append_assoc] using hb2, k1.trans hk2 (Nat.le_refl _)⟩
+      simp [refCmd, hv, C04c.showVal_toStr v jv s hvj hs', Spec.Eval.Out.bind]
+  · cases h
+
+theorem debugger_ok (p : Nat) : CmdOk F G R ae buf (.debugger p) := by
+  intro fuel sc r env jenv jenv' out h hs hg hrel hb hx
+  simp only [toCmd, Option.some.injEq] at h; subst h
+  rw [execStmts_one] at hx
+  simp only [execStmt, SRes.ok.injEq] at hx; subst hx
+  exact ⟨[], env, by simp [refCmd], hrel, by simpa using hb, Keeps.refl _ _ _⟩
 
 /-! ### msg (no bundle) -/
 
@@ -3731,6 +4181,103 @@ theorem parts_text_ok (p : Nat) (t : Bytes) (rest : MsgParts) (ih2 : PartsOk F G
   simp only [refParts, refPh, Spec.Eval.Out.bind] at ht ⊢
   exact ht
 
+/-- the `{case n}` clauses of a plural: JavaScript matches no label exactly when the reference matches no case; the
+    clause JavaScript runs is the case the reference renders -/
+def PCasesOk (cs : PluralCases) : Prop :=
+  ∀ (fuel : Nat) (sc : Scope) (r : JsPlural × Scope) (env : SEnv) (jenv : JEnv) (out : Bytes) (i : Int),
+    toPCases ae buf cs sc = some r → ScOk sc → GoodBuf sc buf → EnvRel R.entry sc env jenv → BufIs buf jenv out →
+    (execPlural F G fuel r.1 i jenv = none → refPlural F R ae cs i env = none) ∧
+    (∀ jenv', execPlural F G fuel r.1 i jenv = some (.ok jenv') →
+      ∃ text env', refPlural F R ae cs i env = some (.val (text, env')) ∧ EnvRel R.entry r.2 env' jenv' ∧
+        BufIs buf jenv' (out ++ text) ∧ Keeps buf sc.n jenv jenv')
+
+theorem pcases_nil_ok : PCasesOk F G R ae buf .nil := by
+  intro fuel sc r env jenv out i h hs hg hrel hb
+  simp only [toPCases, Option.some.injEq] at h; subst h
+  exact ⟨fun _ => by simp [refPlural], fun jenv' hx => by simp [execPlural] at hx⟩
+
+theorem pcases_cons_ok (p : Nat) (v : Int) (bp : Nat) (body : MsgParts) (rest : PluralCases) (ih1 : PartsOk F G R ae buf body)
+    (ih2 : PCasesOk F G R ae buf rest) : PCasesOk F G R ae buf (.cons p v bp body rest) := by
+  intro fuel sc r env jenv out i h hs hg hrel hb
+  unfold toPCases at h
+  obtain ⟨rb, rr, hrb, hst, hrr, rfl⟩ := pcaseJoin_some h
+  obtain ⟨a1, _, a3⟩ := toParts_scope ae body buf sc rb hrb hs
+  obtain ⟨b1, b2, b3⟩ := toPCases_scope ae rest buf rb.2 rr hrr a1
+  have hg1 : GoodBuf rb.2 buf := goodBuf_of_stack hg hst a3
+  have hrel1 : EnvRel R.entry rb.2 env jenv := envRel_stack hrel hst
+  obtain ⟨t1, t2⟩ := ih2 fuel rb.2 rr env jenv out i hrr a1 hg1 hrel1 hb
+  simp only [execPlural, refPlural]
+  by_cases hex : SoyVerif.Spec.JsSem.exact v = true
+  · simp only [hex, if_true]
+    by_cases hiv : (i == v) = true
+    · simp only [hiv, if_true]
+      refine ⟨fun hx => by simp at hx, ?_⟩
+      intro jenv' hx
+      simp only [Option.some.injEq] at hx
+      obtain ⟨text, env', ht, hrel', hb', hk⟩ := ih1 fuel sc rb env jenv jenv' out hrb hs hg hrel hb hx
+      exact ⟨text, env', by rw [ht], envRel_stack hrel' (b2), hb', hk⟩
+    · simp only [hiv, Bool.false_eq_true, if_false]
+      refine ⟨t1, ?_⟩
+      intro jenv' hx
+      obtain ⟨text, env', ht, hrel', hb', hk⟩ := t2 jenv' hx
+      exact ⟨text, env', ht, hrel', hb', hk.mono a3⟩
+  · simp only [hex, Bool.false_eq_true, if_false]
+    exact ⟨fun hx => by simp at hx, fun jenv' hx => by simp at hx⟩
+
+theorem toJsV_int {v : Spec.Eval.Val} {i : Int} (h : toJsV v = some (.num i)) : v = .int i := by
+  cases v <;> simp [C04c.toJsV] at h
+  exact congrArg Spec.Eval.Val.int h.2
+
+theorem parts_plural_ok (p : Nat) (vn : Bytes) (value : Expr) (cases : PluralCases) (dp : Nat) (dflt rest : MsgParts)
+    (ihc : PCasesOk F G R ae buf cases) (ihd : PartsOk F G R ae buf dflt) (ihr : PartsOk F G R ae buf rest) :
+    PartsOk F G R ae buf (.plural p vn value cases dp dflt rest) := by
+  intro fuel sc r env jenv jenv' out h hs hg hrel hb hx
+  unfold toParts at h
+  obtain ⟨j, rc, rd, rr, hj, hrc, hrd, hstd, hrr, rfl⟩ := pluralJoin_some h
+  obtain ⟨c1, c2, c3⟩ := toPCases_scope ae cases buf sc rc hrc hs
+  obtain ⟨d1, _, d3⟩ := toParts_scope ae dflt buf rc.2 rd hrd c1
+  have hgc : GoodBuf rc.2 buf := goodBuf_of_stack hg c2 c3
+  have hgd : GoodBuf rd.2 buf := goodBuf_of_stack hg hstd (Nat.le_trans c3 d3)
+  simp only [execStmts] at hx
+  obtain ⟨e1, hx1, hx2⟩ := sres_bind_ok hx
+  simp only [execStmt] at hx1
+  obtain ⟨jv, hjv, hx1⟩ := withVal_ok hx1
+  obtain ⟨vv, hvv, hvj⟩ := C04c.gen_correct_refs_partial sc env jenv hrel value j jv hj hjv
+  cases jv with
+  | num i =>
+    have := toJsV_int hvj
+    subst this
+    simp only at hx1
+    obtain ⟨t1, t2⟩ := ihc fuel sc rc env jenv out i hrc hs hg hrel hb
+    -- the clause that ran
+    have hbranch : ∃ text env', (match refPlural F R ae cases i env with
+          | some r => r
+          | none => refParts F R ae dflt env) = .val (text, env') ∧ EnvRel R.entry rd.2 env' e1 ∧ BufIs buf e1 (out ++ text) ∧
+        Keeps buf sc.n jenv e1 := by
+      cases hp : execPlural F G fuel rc.1 i jenv with
+      | some res =>
+        rw [hp] at hx1
+        simp only at hx1
+        subst hx1
+        obtain ⟨text, env', ht, hrel', hb', hk⟩ := t2 e1 hp
+        exact ⟨text, env', by rw [ht], envRel_stack hrel' (hstd.trans c2.symm), hb', hk⟩
+      | none =>
+        rw [hp] at hx1
+        simp only at hx1
+        have hn := t1 hp
+        obtain ⟨text, env', ht, hrel', hb', hk⟩ := ihd fuel rc.2 rd env jenv e1 out hrd c1 hgc (envRel_stack hrel c2) hb hx1
+        exact ⟨text, env', by rw [hn]; exact ht, hrel', hb', hk.mono c3⟩
+    obtain ⟨text1, env1, ht1, hrel1, hb1, hk1⟩ := hbranch
+    obtain ⟨text2, env2, ht2, hrel2, hb2, hk2⟩ := ihr fuel rd.2 rr env1 e1 jenv' (out ++ text1) hrr d1 hgd hrel1 hb1 hx2
+    refine ⟨text1 ++ text2, env2, ?_, hrel2, by rw [← List.append_assoc]; exact hb2, hk1.trans hk2 (Nat.le_trans c3 d3)⟩
+    simp only [refParts, hvv, Spec.Eval.Out.bind, ht1, ht2]
+  | undefined => cases hx1
+  | null => cases hx1
+  | bool _ => cases hx1
+  | str _ => cases hx1
+  | arr _ => cases hx1
+  | obj _ => cases hx1
+
 theorem msg_ok (p id : Nat) (m d : Bytes) (bp : Nat) (body : MsgParts) (ih : PartsOk F G R ae buf body) :
     CmdOk F G R ae buf (.msg p id m d bp body) := by
   intro fuel sc r env jenv jenv' out h hs hg hrel hb hx
@@ -3785,7 +4332,7 @@ theorem letContent_ok (p : Nat) (name : Bytes) (body : Block) (ih : ∀ buf', Bl
   have hloop : LoopRel (rbv.2.bind name (sc.genname name).1) (env.bind name (.str text)) jenv' := by
     have h1 : LoopRel rbv.2 env jenv' := loopRel_keep hrel.2.1 hkeep hs.2 (Nat.le_refl _) hg.2 a1
     exact loopRel_setTop h1 name _ hname _ (fun _ _ _ _ => rfl) rfl
-  refine ⟨?_, hloop, by rw [hkeep.1]; exact hrel.2.2⟩
+  refine ⟨?_, hloop, by rw [hkeep.1]; exact hrel.2.2.1, by rw [hkeep.2.1]; exact hrel.2.2.2.1, hrel.2.2.2.2⟩
   cases hstk : rbv.2.stack with
   | nil => rw [a1] at hstk; exact absurd hstk hst
   | cons f st =>
@@ -3867,8 +4414,8 @@ theorem toJsKvs_append : ∀ (a b : List (Bytes × Val)) (ja jb : List (Bytes ×
     JSON image of the data `ce.entry`, `name` is a template of the registry, it renders on that data, and `r` is
     the text -/
 def CallRel : Prop :=
-  ∀ (name : Bytes) (ce : Spec.Eval.CallEnv) (jd : List (Bytes × JVal)) (r : JVal),
-    C04c.toJsKvs ce.entry = some jd → G name (.obj jd) = .val r →
+  ∀ (name : Bytes) (ce : Spec.Eval.CallEnv) (jd : List (Bytes × JVal)) (jij : Option (List (Bytes × JVal))) (r : JVal),
+    C04c.toJsKvs ce.entry = some jd → IjRel ce.ij jij → GlobRel ce.globals → G name (.obj jd) jij = .val r →
     ∃ callee out, Registry.lookup R.reg name = some callee ∧ R.call callee ce = .val out ∧ r = .str out
 
 /-- the params of a call: when the statements that fill the content params' buffers complete, only new locals
@@ -3993,7 +4540,7 @@ theorem base_ok {sc : Scope} {env : SEnv} {jenv : JEnv} (hrel : EnvRel R.entry s
     exact ⟨kvs, by simp [refBase, hv, Spec.Eval.Out.bind], hk⟩
   · subst hbase
     simp only [evalBase, JOut.val.injEq, JVal.obj.injEq] at hbv; subst hbv
-    exact ⟨R.entry, by simp [refBase], hrel.2.2⟩
+    exact ⟨R.entry, by simp [refBase], hrel.2.2.1⟩
 
 theorem call_ok (hG : CallRel G R) (p : Nat) (name : Bytes) (allData : Bool) (data : Option Expr) (params : ParamList)
     (ihp : ParamsOk F G R ae params) : CmdOk F G R ae buf (.call p name allData data params) := by
@@ -4020,8 +4567,8 @@ theorem call_ok (hG : CallRel G R) (p : Nat) (name : Bytes) (allData : Bool) (da
       obtain ⟨bs, jbs, hr, hjb, he⟩ := hpp jenvF [] extra (KeepsAll.refl _ _) hep
       simp only [List.append_nil] at he; subst he
       obtain ⟨bd, hbd, hbj⟩ := base_ok R hrelF hbase hbv
-      obtain ⟨callee, outc, hlk, hc, rfl⟩ := hG name ⟨bs ++ bd, env.ij, env.globals⟩ (extra ++ bkvs) rv
-        (toJsKvs_append _ _ _ _ hjb hbj) hrv
+      obtain ⟨callee, outc, hlk, hc, rfl⟩ := hG name ⟨bs ++ bd, env.ij, env.globals⟩ (extra ++ bkvs) jenvF.ijData rv
+        (toJsKvs_append _ _ _ _ hjb hbj) hrelF.2.2.2.1 hrelF.2.2.2.2 hrv
       obtain ⟨s, hs', rfl⟩ := appendTo_ok hbF hx
       simp only [toStr?, Option.some.injEq] at hs'; subst hs'
       have hkeep : Keeps buf sc.n jenv (setLocal jenvF buf (.str (out ++ outc))) :=
@@ -4045,8 +4592,9 @@ mutual
     | .letValue p x e, buf => letValue_ok F G R ae buf p x e
     | .ifc p conds, buf => ifc_ok F G R ae buf p conds (conds_ok conds buf)
     | .msg p id m d bp body, buf => msg_ok F G R ae buf p id m d bp body (parts_ok body buf)
-    | .css .., _ => fun _ _ _ _ _ _ _ h => by simp [toCmd] at h
-    | .debugger .., _ => fun _ _ _ _ _ _ _ h => by simp [toCmd] at h
+    | .css p none suffix, buf => css_none_ok F G R ae buf p suffix
+    | .css p (some e) suffix, buf => css_some_ok F G R ae buf p e suffix
+    | .debugger p, buf => debugger_ok F G R ae buf p
     | .log .., _ => fun _ _ _ _ _ _ _ h => by simp [toCmd] at h
     | .forc p v list body none, buf => forc_none_ok F G R ae buf p v list body (body_ok' body buf)
     | .forc p v list body (some ie), buf => forc_some_ok F G R ae buf p v list body ie (body_ok' body buf) (block_ok' ie buf)
@@ -4061,7 +4609,11 @@ mutual
     | .nil, buf => parts_nil_ok F G R ae buf
     | .text p t rest, buf => parts_text_ok F G R ae buf p t rest (parts_ok rest buf)
     | .ph p name body rest, buf => parts_ph_ok F G R ae buf p name body rest (ph_ok body buf) (parts_ok rest buf)
-    | .plural .., _ => fun _ _ _ _ _ _ _ h => by simp [toParts] at h
+    | .plural p vn value cases dp dflt rest, buf =>
+      parts_plural_ok F G R ae buf p vn value cases dp dflt rest (pcases_ok cases buf) (parts_ok dflt buf) (parts_ok rest buf)
+  theorem pcases_ok : ∀ (cs : PluralCases) (buf : Bytes), PCasesOk F G R ae buf cs
+    | .nil, buf => pcases_nil_ok F G R ae buf
+    | .cons p v bp body rest, buf => pcases_cons_ok F G R ae buf p v bp body rest (parts_ok body buf) (pcases_ok rest buf)
   theorem ph_ok : ∀ (b : MsgPhBody) (buf : Bytes), PhOk F G R ae buf b
     | .htmlTag p t, buf => ph_tag_ok F G R ae buf p t
     | .cmd c, buf => ph_cmd_ok F G R ae buf c (cmd_ok c buf)
@@ -4090,7 +4642,7 @@ end
 /-! ## the theorem -/
 
 section
-variable (F : Bytes → List Expr → JVal → JOut) (G : Bytes → JVal → JOut) (R : RefCtx) (ae : Autoescape) (buf : Bytes)
+variable (F : Bytes → List Expr → JVal → JOut) (G : Callee) (R : RefCtx) (ae : Autoescape) (buf : Bytes)
 
 /-- PARTIAL (C04, command level).  For a list of commands of the fragment — raw text, `{print}` with
     directives, `{let $x: e /}`, `{if}/{elseif}/{else}`, `{foreach}` / `{ifempty}`, `{for … in range(…)}`, `{switch}`,
@@ -4102,7 +4654,8 @@ variable (F : Bytes → List Expr → JVal → JOut) (G : Bytes → JVal → JOu
         directive functions) from a JavaScript environment related to the Soy environment `env`, in
         which `buf` holds `out`, the specification renders the commands in `env` to a text, and `buf`
         then holds `out` followed by exactly this text. -/
-theorem gen_correct_cmds_partial (hG : CallRel G R) (sk : List Bytes → List Bytes) (o : Options) (ho : o.messages = none)
+theorem gen_correct_cmds_partial (hG : CallRel G R) (sk : List Bytes → List Bytes) (o : Options) [GlobalsAre o]
+    (ho : o.messages = none)
     (cmds : CmdList) (sc : Scope) (r : JsStmts × Scope) (h : toCmds ae buf cmds sc = some r) :
     (∀ ind, Runs (At ind buf ae sc) (At ind buf ae r.2) (walkCmds sk o cmds) (renderStmts (isEs6 o) ind r.1)) ∧
     (∀ (fuel : Nat) (env : SEnv) (jenv jenv' : JEnv) (out : Bytes), ScOk sc → GoodBuf sc buf → EnvRel R.entry sc env jenv → BufIs buf jenv out →
@@ -4118,6 +4671,7 @@ theorem gen_correct_cmds_partial (hG : CallRel G R) (sk : List Bytes → List By
 theorem gen_correct_body_partial (hG : CallRel G R) (body : CmdList) (n : Nat) (r : JsStmts × Scope)
     (h : toCmds ae b!"output" body ⟨[[]], n⟩ = some r) (env : SEnv) (optData : List (Bytes × JVal))
     (ij : Option (List (Bytes × JVal))) (hent : R.entry = env.vars) (hdata : C04c.toJsKvs env.vars = some optData)
+    (hij : IjRel env.ij ij) (hgl : GlobRel env.globals)
     (jenv' : JEnv) (fuel : Nat)
     (hx : execStmts F G fuel r.1 ⟨optData, ij, [(b!"output", .str [])]⟩ = .ok jenv') :
     ∃ text, refCmds F R ae body env = .val text ∧ BufIs b!"output" jenv' text := by
@@ -4129,7 +4683,7 @@ theorem gen_correct_body_partial (hG : CallRel G R) (body : CmdList) (n : Nat) (
     cases hkv
   have hrel : EnvRel R.entry ⟨[[]], n⟩ env ⟨optData, ij, [(b!"output", .str [])]⟩ := by
     rw [hent]
-    exact C04c.envRel_params _ env _ (fun k => by simp [Scope.lookup, Scope.lookupIn, frameGet?]) hdata
+    exact C04c.envRel_params _ env _ (fun k => by simp [Scope.lookup, Scope.lookupIn, frameGet?]) hdata hij hgl
   obtain ⟨text, ht, hb', _⟩ := cmds_ok F G R ae hG body b!"output" fuel _ r env _ jenv' [] h hs
     (goodBuf_plain n _ (by decide)) hrel (by simp [BufIs]) hx
   exact ⟨text, ht, by simpa using hb'⟩
@@ -4152,12 +4706,20 @@ mutual
       plainBlock hb body && (match ifEmpty with
         | none => true
         | some b => plainBlock hb b)
-    | _ => true
+    | .rawText .. => true
+    | .letValue .. => true
+    | .css .. => true
+    | .debugger .. => true
+    -- `{log}` and the structural nodes are outside the fragment of the reference semantics
+    | _ => false
   def plainParts (hb : Bool) : MsgParts → Bool
     | .nil => true
     | .text _ _ rest => plainParts hb rest
     | .ph _ _ body rest => plainPh hb body && plainParts hb rest
-    | .plural .. => false
+    | .plural _ _ _ cases _ dflt rest => plainPCases hb cases && plainParts hb dflt && plainParts hb rest
+  def plainPCases (hb : Bool) : PluralCases → Bool
+    | .nil => true
+    | .cons _ _ _ body rest => plainParts hb body && plainPCases hb rest
   def plainPh (hb : Bool) : MsgPhBody → Bool
     | .htmlTag .. => true
     | .cmd c => plainCmd hb c
@@ -4208,7 +4770,7 @@ def EscapeHtmlIs (F : Bytes → List Expr → JVal → JOut) : Prop :=
     | none => .unspec
 
 section
-variable (F : Bytes → List Expr → JVal → JOut) (G : Bytes → JVal → JOut) (ae : Autoescape) (hesc : EscapeHtmlIs F)
+variable (F : Bytes → List Expr → JVal → JOut) (G : Callee) (ae : Autoescape) (hesc : EscapeHtmlIs F)
 variable (reg : Registry.Reg) (hasBundle : Bool) (entry : Spec.Eval.Binds)
 variable (call call' : Registry.Tmpl → Spec.Eval.CallEnv → Out Bytes)
 -- the reference's `call` and the specification's: the latter renders what the former does
@@ -4216,9 +4778,9 @@ variable (hcall : ∀ (name : Bytes) (t : Registry.Tmpl) (ce : Spec.Eval.CallEnv
   Registry.lookup reg name = some t → call t ce = .val out → call' t ce = .val out)
 include hesc
 
-theorem refPrint_nil (v : Val) (s : Bytes) (h : refPrint F ae [] v = .val s) :
+theorem refPrintJs_nil (v : Val) (s : Bytes) (h : refPrintJs F ae [] v = .val s) :
     ∃ s0, Spec.Eval.showVal v = .val s0 ∧ s = if ae != .off then htmlEscape s0 else s0 := by
-  unfold refPrint at h
+  unfold refPrintJs at h
   cases hv : toJsV v with
   | none => simp [hv] at h
   | some jv =>
@@ -4242,6 +4804,50 @@ theorem refPrint_nil (v : Val) (s : Bytes) (h : refPrint F ae [] v = .val s) :
       | some s0 =>
         simp only [hs, Out.val.injEq] at h
         exact ⟨s0, C04c.showVal_toStr v jv s0 hv hs, h.symm⟩
+
+theorem refPrintJs_nil_ne_error (v : Val) : refPrintJs F ae [] v ≠ .error := by
+  intro h
+  unfold refPrintJs at h
+  cases hv : toJsV v with
+  | none => simp [hv] at h
+  | some jv =>
+    simp only [hv] at h
+    have hgo : C04b.goPrint (liftF F) Gen.directiveTable ae [] (.val jv) =
+        some (if ae != .off then F escapeHtmlName [] jv else .val jv) := by
+      simp only [C04b.goPrint, C04b.goRun, Option.map_some, liftF, JOut.bind]
+    rw [hgo] at h
+    by_cases hae : (ae != .off) = true
+    · simp only [hae, if_true] at h
+      rw [hesc jv] at h
+      cases hs : toStr? jv with
+      | none => simp [hs] at h
+      | some s0 =>
+        rw [hs] at h
+        simp only [toStr?] at h
+        cases h
+    · simp only [hae, Bool.false_eq_true, if_false] at h
+      cases hs : toStr? jv <;> simp [hs] at h
+
+/-- without directives the reference's print IS Spec/Eval's -/
+theorem refPrint_nil_eq (v : Val) : refPrint F ae [] v = specPlain ae v := by
+  unfold refPrint
+  cases h : refPrintJs F ae [] v with
+  | unspec => simp
+  | error => exact absurd h (refPrintJs_nil_ne_error F ae hesc v)
+  | val s =>
+    obtain ⟨s0, hs0, rfl⟩ := refPrintJs_nil F ae hesc v s h
+    have hu : Spec.Eval.isUndef v = false := by cases v <;> simp_all [Spec.Eval.isUndef, Spec.Eval.showVal]
+    simp [specPlain, hu, hs0, Spec.Eval.Out.bind]
+
+theorem refPrint_nil (v : Val) (s : Bytes) (h : refPrint F ae [] v = .val s) :
+    ∃ s0, Spec.Eval.showVal v = .val s0 ∧ s = if ae != .off then htmlEscape s0 else s0 := by
+  rw [refPrint_nil_eq F ae hesc v] at h
+  unfold specPlain at h
+  split at h
+  · cases h
+  · obtain ⟨s0, hs0, h⟩ := out_bind_val h
+    simp only [Out.val.injEq] at h
+    exact ⟨s0, hs0, h.symm⟩
 
 include hcall
 
@@ -4282,8 +4888,15 @@ mutual
       simp only [hp.1] at e
       rw [e]
       exact h
-    | .css .., _, _, _, h => by simp [refCmd] at h
-    | .debugger .., _, _, _, h => by simp [refCmd] at h
+    | .css p none suffix, env, r, _, h => by
+      rw [Spec.Eval.renderCmd]
+      simpa [refCmd] using h
+    | .css p (some e) suffix, env, r, _, h => by
+      rw [Spec.Eval.renderCmd]
+      simpa [refCmd] using h
+    | .debugger p, env, r, _, h => by
+      rw [Spec.Eval.renderCmd]
+      simpa [refCmd] using h
     | .log .., _, _, _, h => by simp [refCmd] at h
     | .forc p v list body none, env, r, hp, h => by
       rw [Spec.Eval.renderCmd]
@@ -4433,7 +5046,65 @@ mutual
       simp only [Spec.Eval.Out.bind]
       rw [ref_le_spec_parts rest r1.2 r2 hp.2 h2]
       exact h
-    | .plural .., _, _, hp, _ => by simp [plainParts] at hp
+    | .plural p vn value cases dp dflt rest, env, r, hp, h => by
+      simp only [plainParts, Bool.and_eq_true] at hp
+      rw [Spec.Eval.renderParts]
+      simp only [refParts] at h
+      obtain ⟨v, hv, h⟩ := out_bind_val h
+      rw [hv]
+      simp only [Spec.Eval.Out.bind]
+      cases v <;> simp only [reduceCtorEq] at h
+      rename_i i
+      obtain ⟨r1, h1, h⟩ := out_bind_val h
+      obtain ⟨r2, h2, h⟩ := out_bind_val h
+      have hsp : Spec.Eval.renderPlural reg hasBundle (ae != .off) entry call' none cases
+          (Spec.Eval.renderParts reg hasBundle (ae != .off) entry call' none dflt) i env = .val r1 := by
+        obtain ⟨q1, q2⟩ := ref_le_spec_plural cases i env hp.1.1
+        cases hrp : refPlural F ⟨reg, entry, call⟩ ae cases i env with
+        | some rr =>
+          rw [hrp] at h1
+          simp only at h1
+          subst h1
+          exact q1 r1 hrp _
+        | none =>
+          rw [hrp] at h1
+          simp only at h1
+          rw [q2 hrp]
+          exact ref_le_spec_parts dflt env r1 hp.1.2 h1
+      dsimp only
+      rw [hsp]
+      dsimp only
+      rw [ref_le_spec_parts rest r1.2 r2 hp.2 h2]
+      exact h
+  theorem ref_le_spec_plural : ∀ (cs : PluralCases) (i : Int) (env : SEnv), plainPCases hasBundle cs = true →
+      (∀ r, refPlural F ⟨reg, entry, call⟩ ae cs i env = some (.val r) →
+        ∀ dfltF, Spec.Eval.renderPlural reg hasBundle (ae != .off) entry call' none cs dfltF i env = .val r) ∧
+      (refPlural F ⟨reg, entry, call⟩ ae cs i env = none →
+        ∀ dfltF, Spec.Eval.renderPlural reg hasBundle (ae != .off) entry call' none cs dfltF i env = dfltF env)
+    | .nil, i, env, _ => by
+      refine ⟨fun r h => by simp [refPlural] at h, fun _ dfltF => ?_⟩
+      rw [Spec.Eval.renderPlural]
+    | .cons p v bp body rest, i, env, hp => by
+      simp only [plainPCases, Bool.and_eq_true] at hp
+      obtain ⟨q1, q2⟩ := ref_le_spec_plural rest i env hp.2
+      refine ⟨fun r h dfltF => ?_, fun h dfltF => ?_⟩
+      · rw [Spec.Eval.renderPlural]
+        simp only [refPlural] at h
+        split at h
+        · rename_i hiv
+          simp only [hiv, if_true]
+          simp only [Option.some.injEq] at h
+          exact ref_le_spec_parts body env r hp.1 h
+        · rename_i hiv
+          simp only [hiv, Bool.false_eq_true, if_false]
+          exact q1 r h dfltF
+      · rw [Spec.Eval.renderPlural]
+        simp only [refPlural] at h
+        split at h
+        · cases h
+        · rename_i hiv
+          simp only [hiv, Bool.false_eq_true, if_false]
+          exact q2 h dfltF
   theorem ref_le_spec_ph : ∀ (b : MsgPhBody) (env : SEnv) (r : Bytes × SEnv), plainPh hasBundle b = true →
       refPh F ⟨reg, entry, call⟩ ae b env = .val r →
       Spec.Eval.renderPh reg hasBundle (ae != .off) entry call' none b env = .val r
@@ -4555,8 +5226,385 @@ end
 
 end
 
+/-! ### … and conversely: what Spec/Eval renders, the reference renders
+
+  On the directive-free fragment (`plainCmd`), with soy.$$escapeHtml read as `htmlEscape ∘ ToString`, the reference
+  semantics renders every text Spec/Eval renders (its print falls back to Spec/Eval's where the JSON image is silent:
+  `refPrint_nil_eq`).  With `ref_le_spec_*`: on this fragment the two agree on the texts. -/
+
 section
-variable (F : Bytes → List Expr → JVal → JOut) (G : Bytes → JVal → JOut) (R : RefCtx) (ae : Autoescape)
+variable (F : Bytes → List Expr → JVal → JOut) (ae : Autoescape) (hesc : EscapeHtmlIs F)
+variable (reg : Registry.Reg) (hasBundle : Bool) (entry : Spec.Eval.Binds)
+variable (call call' : Registry.Tmpl → Spec.Eval.CallEnv → Out Bytes)
+variable (hcall : ∀ (name : Bytes) (t : Registry.Tmpl) (ce : Spec.Eval.CallEnv) (out : Bytes),
+  Registry.lookup reg name = some t → call' t ce = .val out → call t ce = .val out)
+include hesc hcall
+
+mutual
+  theorem spec_le_ref_cmd : ∀ (c : Cmd) (env : SEnv) (r : Bytes × SEnv), plainCmd hasBundle c = true →
+      Spec.Eval.renderCmd reg hasBundle (ae != .off) entry call' none c env = .val r → refCmd F ⟨reg, entry, call⟩ ae c env = .val r
+    | .rawText p t, env, r, _, h => by
+      rw [Spec.Eval.renderCmd] at h
+      simpa [refCmd] using h
+    | .print p arg dirs, env, r, hp, h => by
+      have hd : dirs = [] := by simpa [plainCmd] using hp
+      subst hd
+      rw [Spec.Eval.renderCmd] at h
+      simp only [List.isEmpty_nil, Bool.not_true, Bool.false_and, Bool.false_eq_true, if_false] at h
+      obtain ⟨v, hv, h⟩ := out_bind_val h
+      simp only [refCmd, refPrint_nil_eq F ae hesc, hv, Spec.Eval.Out.bind, specPlain]
+      cases hu : Spec.Eval.isUndef v
+      · simp only [hu, Bool.false_eq_true, if_false, Spec.Eval.runDirs, Spec.Eval.Out.bind] at h ⊢
+        cases hs : Spec.Eval.showVal v with
+        | val s0 => simp only [hs] at h ⊢; exact h
+        | error => simp [hs] at h
+        | unspec => simp [hs] at h
+      · simp [hu] at h
+    | .letValue p x e, env, r, _, h => by
+      rw [Spec.Eval.renderCmd] at h
+      simpa [refCmd] using h
+    | .ifc p conds, env, r, hp, h => by
+      rw [Spec.Eval.renderCmd] at h
+      simp only [refCmd]
+      obtain ⟨out, ho, h⟩ := out_bind_val h
+      rw [spec_le_ref_conds conds env out (by simpa [plainCmd] using hp) ho]
+      exact h
+    | .msg p id m d bp body, env, r, hp, h => by
+      simp only [plainCmd, Bool.and_eq_true, Bool.not_eq_true'] at hp
+      rw [Spec.Eval.renderCmd] at h
+      rw [if_pos (by simp [hp.1])] at h
+      simp only [refCmd]
+      obtain ⟨r1, h1, h⟩ := out_bind_val h
+      rw [spec_le_ref_parts body env r1 hp.2 h1]
+      exact h
+    | .css p none suffix, env, r, _, h => by
+      rw [Spec.Eval.renderCmd] at h
+      simpa [refCmd] using h
+    | .css p (some e) suffix, env, r, _, h => by
+      rw [Spec.Eval.renderCmd] at h
+      simpa [refCmd] using h
+    | .debugger p, env, r, _, h => by
+      rw [Spec.Eval.renderCmd] at h
+      simpa [refCmd] using h
+    | .log .., _, _, hp, _ => by simp [plainCmd] at hp
+    | .forc p v list body none, env, r, hp, h => by
+      rw [Spec.Eval.renderCmd] at h
+      simp only [plainCmd, Bool.and_eq_true] at hp
+      simp only [refCmd]
+      obtain ⟨lv, hev, h⟩ := out_bind_val h
+      rw [hev]
+      simp only [Spec.Eval.Out.bind]
+      cases lv with
+      | list xs =>
+        simp only at h ⊢
+        by_cases hem : xs.isEmpty = true
+        · simp only [hem, if_true] at h ⊢
+          exact h
+        · simp only [hem, Bool.false_eq_true, if_false] at h ⊢
+          obtain ⟨out, ho, h⟩ := out_bind_val h
+          rw [loopSpec_le _ _ (fun env' o ho' => spec_le_ref_block body env' o hp.1 ho') env v _ xs 0 out ho]
+          exact h
+      | _ => cases h
+    | .forc p v list body (some b), env, r, hp, h => by
+      rw [Spec.Eval.renderCmd] at h
+      simp only [plainCmd, Bool.and_eq_true] at hp
+      simp only [refCmd]
+      obtain ⟨lv, hev, h⟩ := out_bind_val h
+      rw [hev]
+      simp only [Spec.Eval.Out.bind]
+      cases lv with
+      | list xs =>
+        simp only at h ⊢
+        by_cases hem : xs.isEmpty = true
+        · simp only [hem, if_true] at h ⊢
+          obtain ⟨out, ho, h⟩ := out_bind_val h
+          rw [spec_le_ref_block b env out hp.2 ho]
+          exact h
+        · simp only [hem, Bool.false_eq_true, if_false] at h ⊢
+          obtain ⟨out, ho, h⟩ := out_bind_val h
+          rw [loopSpec_le _ _ (fun env' o ho' => spec_le_ref_block body env' o hp.1 ho') env v _ xs 0 out ho]
+          exact h
+      | _ => cases h
+    | .switch p value cases, env, r, hp, h => by
+      rw [Spec.Eval.renderCmd] at h
+      simp only [refCmd]
+      obtain ⟨sv, hsv, h⟩ := out_bind_val h
+      obtain ⟨out, ho, h⟩ := out_bind_val h
+      have hc : Spec.Eval.renderCases reg hasBundle (ae != .off) entry call' none cases sv env = .val out := by
+        rw [Spec.Eval.renderCases]; exact ho
+      rw [hsv]
+      simp only [Spec.Eval.Out.bind]
+      rw [spec_le_ref_cases cases sv env out (by simpa [plainCmd] using hp) hc]
+      exact h
+    | .call p name true none params, env, r, hp, h => by
+      rw [Spec.Eval.renderCmd] at h
+      simp only [refCmd, refBase]
+      cases hl : Registry.lookup reg name with
+      | none => simp [hl] at h
+      | some callee =>
+        simp only [hl, ↓reduceIte, Bool.false_eq_true] at h ⊢
+        obtain ⟨b, hb, h⟩ := out_bind_val h
+        obtain ⟨ps, hps, h⟩ := out_bind_val h
+        rw [hb]
+        simp only [Spec.Eval.Out.bind]
+        rw [spec_le_ref_params params env ps (by simpa [plainCmd] using hp) hps]
+        obtain ⟨o, ho, h⟩ := out_bind_val h
+        dsimp only
+        rw [hcall name callee _ o hl ho]
+        exact h
+    | .call p name true (some d) params, env, r, hp, h => by
+      rw [Spec.Eval.renderCmd] at h
+      simp only [refCmd, refBase]
+      cases hl : Registry.lookup reg name with
+      | none => simp [hl] at h
+      | some callee =>
+        simp only [hl, ↓reduceIte, Bool.false_eq_true] at h ⊢
+        obtain ⟨b, hb, h⟩ := out_bind_val h
+        obtain ⟨ps, hps, h⟩ := out_bind_val h
+        rw [hb]
+        simp only [Spec.Eval.Out.bind]
+        rw [spec_le_ref_params params env ps (by simpa [plainCmd] using hp) hps]
+        obtain ⟨o, ho, h⟩ := out_bind_val h
+        dsimp only
+        rw [hcall name callee _ o hl ho]
+        exact h
+    | .call p name false none params, env, r, hp, h => by
+      rw [Spec.Eval.renderCmd] at h
+      simp only [refCmd, refBase]
+      cases hl : Registry.lookup reg name with
+      | none => simp [hl] at h
+      | some callee =>
+        simp only [hl, ↓reduceIte, Bool.false_eq_true] at h ⊢
+        obtain ⟨b, hb, h⟩ := out_bind_val h
+        obtain ⟨ps, hps, h⟩ := out_bind_val h
+        rw [hb]
+        simp only [Spec.Eval.Out.bind]
+        rw [spec_le_ref_params params env ps (by simpa [plainCmd] using hp) hps]
+        obtain ⟨o, ho, h⟩ := out_bind_val h
+        dsimp only
+        rw [hcall name callee _ o hl ho]
+        exact h
+    | .call p name false (some d) params, env, r, hp, h => by
+      rw [Spec.Eval.renderCmd] at h
+      simp only [refCmd, refBase]
+      cases hl : Registry.lookup reg name with
+      | none => simp [hl] at h
+      | some callee =>
+        simp only [hl, ↓reduceIte, Bool.false_eq_true] at h ⊢
+        obtain ⟨b, hb, h⟩ := out_bind_val h
+        obtain ⟨ps, hps, h⟩ := out_bind_val h
+        obtain ⟨v, hv, hb⟩ := out_bind_val hb
+        rw [hv]
+        simp only [Spec.Eval.Out.bind]
+        cases v <;> simp only [Out.val.injEq, reduceCtorEq] at hb
+        subst hb
+        simp only [Spec.Eval.Out.bind]
+        rw [spec_le_ref_params params env ps (by simpa [plainCmd] using hp) hps]
+        obtain ⟨o, ho, h⟩ := out_bind_val h
+        dsimp only
+        rw [hcall name callee _ o hl ho]
+        exact h
+    | .letContent p name body, env, r, hp, h => by
+      rw [Spec.Eval.renderCmd] at h
+      simp only [refCmd]
+      obtain ⟨out, ho, h⟩ := out_bind_val h
+      rw [spec_le_ref_block body env out (by simpa [plainCmd] using hp) ho]
+      exact h
+    | .headerParam .., _, _, hp, _ => by simp [plainCmd] at hp
+    | .namespace .., _, _, hp, _ => by simp [plainCmd] at hp
+    | .template .., _, _, hp, _ => by simp [plainCmd] at hp
+    | .soyDoc .., _, _, hp, _ => by simp [plainCmd] at hp
+  theorem spec_le_ref_parts : ∀ (ps : MsgParts) (env : SEnv) (r : Bytes × SEnv), plainParts hasBundle ps = true →
+      Spec.Eval.renderParts reg hasBundle (ae != .off) entry call' none ps env = .val r →
+      refParts F ⟨reg, entry, call⟩ ae ps env = .val r
+    | .nil, env, r, _, h => by
+      rw [Spec.Eval.renderParts] at h
+      simpa [refParts] using h
+    | .text p t rest, env, r, hp, h => by
+      rw [Spec.Eval.renderParts] at h
+      simp only [refParts]
+      obtain ⟨r1, h1, h⟩ := out_bind_val h
+      rw [spec_le_ref_parts rest env r1 (by simpa [plainParts] using hp) h1]
+      exact h
+    | .ph p name body rest, env, r, hp, h => by
+      simp only [plainParts, Bool.and_eq_true] at hp
+      rw [Spec.Eval.renderParts] at h
+      simp only [refParts]
+      obtain ⟨r1, h1, h⟩ := out_bind_val h
+      obtain ⟨r2, h2, h⟩ := out_bind_val h
+      rw [spec_le_ref_ph body env r1 hp.1 h1]
+      simp only [Spec.Eval.Out.bind]
+      rw [spec_le_ref_parts rest r1.2 r2 hp.2 h2]
+      exact h
+    | .plural p vn value cases dp dflt rest, env, r, hp, h => by
+      simp only [plainParts, Bool.and_eq_true] at hp
+      rw [Spec.Eval.renderParts] at h
+      simp only [refParts]
+      obtain ⟨v, hv, h⟩ := out_bind_val h
+      rw [hv]
+      simp only [Spec.Eval.Out.bind]
+      cases v <;> simp only [reduceCtorEq] at h
+      rename_i i
+      obtain ⟨r1, h1, h⟩ := out_bind_val h
+      obtain ⟨r2, h2, h⟩ := out_bind_val h
+      have hsp : (match refPlural F ⟨reg, entry, call⟩ ae cases i env with
+          | some r => r
+          | none => refParts F ⟨reg, entry, call⟩ ae dflt env) = .val r1 := by
+        rcases spec_le_ref_plural cases i env _ r1 hp.1.1 h1 with hq | ⟨hq, hd⟩
+        · rw [hq]
+        · rw [hq]
+          exact spec_le_ref_parts dflt env r1 hp.1.2 hd
+      dsimp only
+      rw [hsp]
+      dsimp only
+      rw [spec_le_ref_parts rest r1.2 r2 hp.2 h2]
+      exact h
+  theorem spec_le_ref_plural : ∀ (cs : PluralCases) (i : Int) (env : SEnv) (dfltF : SEnv → Spec.Eval.ROut) (r : Bytes × SEnv),
+      plainPCases hasBundle cs = true →
+      Spec.Eval.renderPlural reg hasBundle (ae != .off) entry call' none cs dfltF i env = .val r →
+      refPlural F ⟨reg, entry, call⟩ ae cs i env = some (.val r) ∨
+        (refPlural F ⟨reg, entry, call⟩ ae cs i env = none ∧ dfltF env = .val r)
+    | .nil, i, env, dfltF, r, _, h => by
+      rw [Spec.Eval.renderPlural] at h
+      exact Or.inr ⟨by simp [refPlural], h⟩
+    | .cons p v bp body rest, i, env, dfltF, r, hp, h => by
+      simp only [plainPCases, Bool.and_eq_true] at hp
+      rw [Spec.Eval.renderPlural] at h
+      simp only [refPlural]
+      by_cases hiv : (i == v) = true
+      · simp only [hiv, if_true] at h ⊢
+        exact Or.inl (by rw [spec_le_ref_parts body env r hp.1 h])
+      · simp only [hiv, Bool.false_eq_true, if_false] at h ⊢
+        exact spec_le_ref_plural rest i env dfltF r hp.2 h
+  theorem spec_le_ref_ph : ∀ (b : MsgPhBody) (env : SEnv) (r : Bytes × SEnv), plainPh hasBundle b = true →
+      Spec.Eval.renderPh reg hasBundle (ae != .off) entry call' none b env = .val r →
+      refPh F ⟨reg, entry, call⟩ ae b env = .val r
+    | .htmlTag p t, env, r, _, h => by
+      rw [Spec.Eval.renderPh] at h
+      simpa [refPh] using h
+    | .cmd c, env, r, hp, h => by
+      rw [Spec.Eval.renderPh] at h
+      simp only [refPh]
+      exact spec_le_ref_cmd c env r (by simpa [plainPh] using hp) h
+  theorem spec_le_ref_params : ∀ (ps : ParamList) (env : SEnv) (out : Spec.Eval.Binds), plainParams hasBundle ps = true →
+      Spec.Eval.renderParams reg hasBundle (ae != .off) entry call' none ps env = .val out →
+      refParams F ⟨reg, entry, call⟩ ae ps env = .val out
+    | .nil, env, out, _, h => by
+      rw [Spec.Eval.renderParams] at h
+      simpa [refParams] using h
+    | .value p key e rest, env, out, hp, h => by
+      rw [Spec.Eval.renderParams] at h
+      simp only [refParams]
+      obtain ⟨v, hv, h⟩ := out_bind_val h
+      obtain ⟨r, hr, h⟩ := out_bind_val h
+      rw [hv]
+      simp only [Spec.Eval.Out.bind]
+      rw [spec_le_ref_params rest env r (by simpa [plainParams] using hp) hr]
+      exact h
+    | .content p key body rest, env, out, hp, h => by
+      rw [Spec.Eval.renderParams] at h
+      simp only [plainParams, Bool.and_eq_true] at hp
+      simp only [refParams]
+      obtain ⟨o1, ho1, h⟩ := out_bind_val h
+      obtain ⟨r, hr, h⟩ := out_bind_val h
+      rw [spec_le_ref_block body env o1 hp.1 ho1]
+      simp only [Spec.Eval.Out.bind]
+      rw [spec_le_ref_params rest env r hp.2 hr]
+      exact h
+  theorem spec_le_ref_block : ∀ (b : Block) (env : SEnv) (out : Bytes), plainBlock hasBundle b = true →
+      Spec.Eval.renderBlock reg hasBundle (ae != .off) entry call' none b env = .val out → refBlock F ⟨reg, entry, call⟩ ae b env = .val out
+    | .mk p cmds, env, out, hp, h => by
+      rw [Spec.Eval.renderBlock] at h
+      simp only [refBlock]
+      exact spec_le_ref_cmds cmds env out (by simpa [plainBlock] using hp) h
+  theorem spec_le_ref_cmds : ∀ (cs : CmdList) (env : SEnv) (out : Bytes), plainCmds hasBundle cs = true →
+      Spec.Eval.renderCmds reg hasBundle (ae != .off) entry call' none cs env = .val out → refCmds F ⟨reg, entry, call⟩ ae cs env = .val out
+    | .nil, env, out, _, h => by
+      rw [Spec.Eval.renderCmds] at h
+      simpa [refCmds] using h
+    | .cons c rest, env, out, hp, h => by
+      rw [Spec.Eval.renderCmds] at h
+      simp only [plainCmds, Bool.and_eq_true] at hp
+      simp only [refCmds]
+      obtain ⟨r1, h1, h⟩ := out_bind_val h
+      obtain ⟨more, h2, h⟩ := out_bind_val h
+      rw [spec_le_ref_cmd c env r1 hp.1 h1]
+      simp only [Spec.Eval.Out.bind]
+      rw [spec_le_ref_cmds rest r1.2 more hp.2 h2]
+      exact h
+  theorem spec_le_ref_cases : ∀ (cs : CaseList) (sv : Val) (env : SEnv) (out : Bytes), plainCases hasBundle cs = true →
+      Spec.Eval.renderCases reg hasBundle (ae != .off) entry call' none cs sv env = .val out → refCases F ⟨reg, entry, call⟩ ae cs sv env = .val out
+    | .nil, sv, env, out, _, h => by
+      rw [Spec.Eval.renderCases, Spec.Eval.renderMatch, Spec.Eval.renderDefault] at h
+      simpa [refCases, Spec.Eval.Out.bind, Spec.Eval.orDefault] using h
+    | .cons p values body rest, sv, env, out, hp, h => by
+      simp only [plainCases, Bool.and_eq_true, Bool.or_eq_true, Bool.not_eq_true'] at hp
+      obtain ⟨⟨hpb, hpr⟩, hlast⟩ := hp
+      simp only [refCases]
+      by_cases hem : values.isEmpty = true
+      · simp only [hem, if_true]
+        have hv : values = [] := by simpa using hem
+        subst hv
+        have hr : rest = .nil := by
+          rcases hlast with h0 | h0
+          · simp at h0
+          · cases rest with
+            | nil => rfl
+            | cons _ _ _ _ => simp at h0
+        subst hr
+        rw [Spec.Eval.renderCases, Spec.Eval.renderMatch, Spec.Eval.renderDefault] at h
+        simp only [Spec.Eval.matchAny, Spec.Eval.Out.bind, Bool.false_eq_true, if_false, Spec.Eval.renderMatch,
+          Spec.Eval.orDefault, List.isEmpty_nil, if_true] at h
+        exact spec_le_ref_block body env out hpb h
+      · simp only [hem, Bool.false_eq_true, if_false]
+        rw [Spec.Eval.renderCases, Spec.Eval.renderMatch, Spec.Eval.renderDefault] at h
+        simp only [hem, Bool.false_eq_true, if_false] at h
+        obtain ⟨o1, ho1, h⟩ := out_bind_val h
+        obtain ⟨hit, hh, ho1⟩ := out_bind_val ho1
+        rw [hh]
+        simp only [Spec.Eval.Out.bind]
+        cases hit with
+        | true =>
+          simp only [if_true] at ho1 ⊢
+          obtain ⟨ob, hob, ho1⟩ := out_bind_val ho1
+          simp only [Out.val.injEq] at ho1
+          subst ho1
+          simp only [Spec.Eval.orDefault, Out.val.injEq] at h
+          subst h
+          exact spec_le_ref_block body env ob hpb hob
+        | false =>
+          simp only [Bool.false_eq_true, if_false] at ho1 ⊢
+          apply spec_le_ref_cases rest sv env out hpr
+          rw [Spec.Eval.renderCases, ho1]
+          exact h
+  theorem spec_le_ref_conds : ∀ (cs : CondList) (env : SEnv) (out : Bytes), plainConds hasBundle cs = true →
+      Spec.Eval.renderConds reg hasBundle (ae != .off) entry call' none cs env = .val out → refConds F ⟨reg, entry, call⟩ ae cs env = .val out
+    | .nil, env, out, _, h => by
+      rw [Spec.Eval.renderConds] at h
+      simpa [refConds] using h
+    | .cons p (some c) body rest, env, out, hp, h => by
+      rw [Spec.Eval.renderConds] at h
+      simp only [plainConds, Bool.and_eq_true] at hp
+      simp only [refConds] at h ⊢
+      obtain ⟨v, hv, h⟩ := out_bind_val h
+      rw [hv]
+      simp only [Spec.Eval.Out.bind]
+      by_cases ht : Spec.Eval.truthy v = true
+      · simp only [ht, if_true] at h ⊢
+        exact spec_le_ref_block body env out hp.1 h
+      · simp only [ht, Bool.false_eq_true, if_false] at h ⊢
+        exact spec_le_ref_conds rest env out hp.2 h
+    | .cons p none body rest, env, out, hp, h => by
+      rw [Spec.Eval.renderConds] at h
+      simp only [plainConds, Bool.and_eq_true] at hp
+      simp only [refConds] at h ⊢
+      exact spec_le_ref_block body env out hp.1 h
+end
+
+end
+
+section
+variable (F : Bytes → List Expr → JVal → JOut) (G : Callee) (R : RefCtx) (ae : Autoescape)
 
 /-- against Spec/Eval.renderCmds itself: directive-free prints, soy.$$escapeHtml read as htmlEscape -/
 theorem gen_correct_cmds_spec (hesc : EscapeHtmlIs F) (buf : Bytes)
@@ -4573,7 +5621,23 @@ theorem gen_correct_cmds_spec (hesc : EscapeHtmlIs F) (buf : Bytes)
 
 end
 
+end Dev
+
 /-! ## non-vacuity -/
+
+section Examples
+open SoyVerif.Spec.Eval (Val Out)
+
+/-- the examples are without globals (those with: the last ones) -/
+def exGlobals : Globals := ⟨[]⟩
+local instance : Globals := exGlobals
+local instance : GlobalsAre ({} : Options) := ⟨rfl⟩
+
+theorem exGlobRel (gs : Spec.Eval.Binds) : GlobRel gs := fun _ _ _ h => by
+  have : (Globals.tbl : List (Bytes × Value)) = [] := rfl
+  rw [this] at h
+  simp [assocGet?] at h
+
 
 /-- `{let $x: $a + 1 /}{if $x > 2}big {let $x: '<' /}{$x}{else}small{/if}{$x |truncate:3}` -/
 def sampleCmds : CmdList :=
@@ -4592,12 +5656,12 @@ def sampleF (name : Bytes) (_ : List Expr) (jv : JVal) : JOut :=
   | none => .unspec
 
 /-- no other template to call -/
-def noCall (_ : Bytes) (_ : JVal) : JOut := .unspec
+def noCall : Callee := fun _ _ _ => .unspec
 /-- a reference context without templates, for the entry data `e` -/
 def noRefOn (e : Spec.Eval.Binds) : RefCtx := ⟨[], e, fun _ _ => .unspec⟩
 def noRef : RefCtx := noRefOn []
 
-theorem noCall_rel (R : RefCtx) : CallRel noCall R := fun _ _ _ _ _ h => by simp [noCall] at h
+theorem noCall_rel (R : RefCtx) : CallRel noCall R := fun _ _ _ _ _ _ _ _ h => by simp [noCall] at h
 
 theorem sampleF_escape : EscapeHtmlIs sampleF := by
   intro jv
@@ -4635,7 +5699,7 @@ example (a : Int) (ha : SoyVerif.Spec.JsSem.exact a = true) (jenv' : JEnv) (r : 
     ∃ text, refCmds sampleF (noRefOn (sampleEnv a).vars) .on sampleCmds (sampleEnv a) = .val text ∧
       BufIs b!"output" jenv' text :=
   gen_correct_body_partial sampleF noCall (noRefOn (sampleEnv a).vars) .on (noCall_rel _) sampleCmds 0 r h (sampleEnv a) _ none rfl
-    (by simp [sampleEnv, C04c.toJsKvs, C04c.toJsV, ha]) jenv' 10 hx
+    (by simp [sampleEnv, C04c.toJsKvs, C04c.toJsV, ha]) rfl (exGlobRel _) jenv' 10 hx
 
 /-- … and these statements are what the generator model writes: from a state inside a template
     function (indentation 1, buffer `output`, autoescaping on, a fresh frame) -/
@@ -4715,6 +5779,32 @@ example : (match toCmds .off b!"output" sampleRange ⟨[[]], 0⟩ with
 
 example : refCmds sampleF noRef .off sampleRange
     { vars := [(b!"n", .int 6), (b!"i", .str b!"p")], loops := [], ij := none, globals := [] } = .val b!"1,3,5,p" := rfl
+
+/-- `{foreach $i in range($n)}[{$i}]{ifempty}nothing{$i}{/foreach}` (soyjs 2e1528d) — the `{ifempty}` block after the loop,
+    where `$i` is the parameter again -/
+def sampleRangeIe : CmdList :=
+  .cons (.forc 0 b!"i" (.func 0 b!"range" (.cons (.dataRef 0 b!"n" .nil) .nil))
+      (.mk 0 (.cons (.rawText 0 b!"[") (.cons (.print 0 (.dataRef 0 b!"i" .nil) []) (.cons (.rawText 0 b!"]") .nil))))
+      (some (.mk 0 (.cons (.rawText 0 b!"nothing") (.cons (.print 0 (.dataRef 0 b!"i" .nil) []) .nil))))) .nil
+
+set_option maxRecDepth 8000 in
+example : (toCmds .off b!"output" sampleRangeIe ⟨[[]], 0⟩).map (fun r => printPieces (renderStmts false 1 r.1)) = some
+    b!"  var i$Limit1 = opt_data.n;\n  var i$Step1 = 1;\n  for (var i$1 = 0, i$Index1 = 0; i$1 < i$Limit1; i$1 += i$Step1, i$Index1++) {\n    output += '[';\n    output += i$1;\n    output += ']';\n  }\n  if (i$Index1 == 0) {\n    output += 'nothing';\n    output += opt_data.i;\n  }\n" := by
+  decide +kernel
+
+def rangeIeRun (n : Int) : Option JVal :=
+  match toCmds .off b!"output" sampleRangeIe ⟨[[]], 0⟩ with
+  | some r => (match execStmts sampleF noCall 10 r.1 ⟨[(b!"n", .num n), (b!"i", .str b!"p")], none, [(b!"output", .str [])]⟩ with
+    | .ok e => (e.locals.find? (·.1 == b!"output")).map (·.2)
+    | _ => none)
+  | none => none
+
+example : rangeIeRun 0 = some (.str b!"nothingp") := rfl
+example : rangeIeRun 2 = some (.str b!"[0][1]") := rfl
+example : refCmds sampleF noRef .off sampleRangeIe
+    { vars := [(b!"n", .int 0), (b!"i", .str b!"p")], loops := [], ij := none, globals := [] } = .val b!"nothingp" := rfl
+example : refCmds sampleF noRef .off sampleRangeIe
+    { vars := [(b!"n", .int 2), (b!"i", .str b!"p")], loops := [], ij := none, globals := [] } = .val b!"[0][1]" := rfl
 
 /-- `{switch $n}{case 1, 2}low{let $n: 'x' /}{$n}{case 'a'}str{default}other{/switch}{$n}` -/
 def sampleSwitch : CmdList :=
@@ -4807,7 +5897,7 @@ example : (toCmds .on b!"output" sampleCall ⟨[[]], 0⟩).map (fun r => printPi
     b!"  output += '[';\n  var param$1 = '';\n  param$1 += '\\u003C';\n  param$1 += soy.$$escapeHtml(opt_data.a);\n  param$1 += '\\u003E';\n  output += sem.c(soy.$$augmentMap(opt_data, {p: ((opt_data.a) + (1)), c: param$1}), opt_sb, opt_ijData);\n  output += ']';\n" := rfl
 
 /-- a callee oracle: the function `sem.c` returns `p:c:a` of its data object (`{$p}:{$c|noAutoescape}:{$a}`) -/
-def sampleG (name : Bytes) (d : JVal) : JOut :=
+def sampleG : Callee := fun name d _ =>
   if name == b!"sem.c" then
     match d with
     | .obj jd =>
@@ -4842,7 +5932,7 @@ theorem find_of_getD {b : Spec.Eval.Binds} {k : Bytes} {v : Val} (h : (Spec.Eval
 
 /-- the oracle pair satisfies the hypothesis of the call theorems -/
 theorem sampleG_rel (entry : Spec.Eval.Binds) : CallRel sampleG (sampleR entry) := by
-  intro name ce jd r hj hg
+  intro name ce jd jij r hj _ _ hg
   unfold sampleG at hg
   split at hg
   · rename_i hn
@@ -4881,7 +5971,7 @@ example (a : Int) (jenv' : JEnv) (r : JsStmts × Scope) (h : toCmds .on b!"outpu
     ∃ text, refCmds sampleF (sampleR (sampleEnv a).vars) .on sampleCall (sampleEnv a) = .val text ∧
       BufIs b!"output" jenv' text :=
   gen_correct_body_partial sampleF sampleG (sampleR (sampleEnv a).vars) .on (sampleG_rel _) sampleCall 0 r h (sampleEnv a) _ none rfl
-    (by simp [sampleEnv, C04c.toJsKvs, C04c.toJsV, ha]) jenv' 10 hx
+    (by simp [sampleEnv, C04c.toJsKvs, C04c.toJsV, ha]) rfl (exGlobRel _) jenv' 10 hx
 
 /-- the semantics of the call has teeth: were the params laid UNDER the data (`augmentMap` the other way round), a
     param could not override a key of `data="all"` -/
@@ -4913,19 +6003,90 @@ example : refCmds sampleF noRef .on sampleMsg (sampleEnv 5) = .val b!"Hi <b>5</b
 -- … and Spec/Eval.renderCmds (no bundle) renders the same
 example : Spec.Eval.renderCmds [] false true [] (fun _ _ => .unspec) none sampleMsg (sampleEnv 5) = .val b!"Hi <b>5</b>, 6!" := rfl
 
+/-- `{msg desc="d"}{plural $a}{case 1}one{case 5}five {$a}{default}many{/plural}!{/msg}` -/
+def samplePlural : CmdList :=
+  .cons (.msg 0 7 [] b!"d" 0
+    (.plural 0 b!"A" (.dataRef 0 b!"a" .nil)
+      (.cons 0 1 0 (.text 0 b!"one" .nil) (.cons 0 5 0 (.text 0 b!"five " (.ph 0 b!"A" (.cmd (.print 0 (.dataRef 0 b!"a" .nil) [])) .nil)) .nil))
+      0 (.text 0 b!"many" .nil) (.text 0 b!"!" .nil))) .nil
+
+set_option maxRecDepth 8000 in
+example : (toCmds .off b!"output" samplePlural ⟨[[]], 0⟩).map (fun r => printPieces (renderStmts false 1 r.1)) = some
+    b!"  switch (opt_data.a) {\n    case 1:\n      output += 'one';\n      break;\n    case 5:\n      output += 'five ';\n      output += opt_data.a;\n      break;\n    default:\n      output += 'many';\n  }\n  output += '!';\n" := by
+  decide +kernel
+
+def pluralRun (a : JVal) : Option SRes :=
+  (toCmds .off b!"output" samplePlural ⟨[[]], 0⟩).map fun r =>
+    execStmts sampleF noCall 10 r.1 ⟨[(b!"a", a)], none, [(b!"output", .str [])]⟩
+
+example : (pluralRun (.num 5)).map (fun r => match r with
+    | .ok e => (e.locals.find? (·.1 == b!"output")).map (·.2)
+    | _ => none) = some (some (.str b!"five 5!")) := rfl
+example : (pluralRun (.num 2)).map (fun r => match r with
+    | .ok e => (e.locals.find? (·.1 == b!"output")).map (·.2)
+    | _ => none) = some (some (.str b!"many!")) := rfl
+example : refCmds sampleF noRef .off samplePlural (sampleEnv 5) = .val b!"five 5!" := rfl
+example : refCmds sampleF noRef .off samplePlural (sampleEnv 2) = .val b!"many!" := rfl
+-- a plural over a string: Soy (Tofu, Spec/Eval) stops with an error, JavaScript takes the default clause — the
+-- semantics is SILENT there (`unspec`)
+example : (pluralRun (.str b!"5")).map (fun r => match r with | .unspec => true | _ => false) = some true := rfl
+example : refCmds sampleF noRef .off samplePlural { vars := [(b!"a", .str b!"5")], loops := [], ij := none, globals := [] } = .error := rfl
+
+end Examples
+
+section ExamplesGlobals
+open SoyVerif.Spec.Eval (Val Out)
+
+/-- one compile-time global: `G_I` = 42 -/
+local instance : Globals := ⟨[(b!"G_I", .int 42)]⟩
+
+/-- `{$ij.a + G_I}|{$ij.q?.z}` -/
+def sampleIj : CmdList :=
+  .cons (.print 0 (.bin .add 0 (.dataRef 0 b!"ij" (.cons (.key 0 false b!"a") .nil)) (.global 0 b!"G_I")) [])
+  (.cons (.rawText 0 b!"|")
+  (.cons (.print 0 (.dataRef 0 b!"ij" (.cons (.key 0 false b!"q") (.cons (.key 0 true b!"z") .nil))) []) .nil))
+
+-- the global is the literal the generator writes; `$ij` is the third parameter
+example : (toCmds .off b!"output" sampleIj ⟨[[]], 0⟩).map (fun r => printPieces (renderStmts false 1 r.1)) = some
+    b!"  output += ((opt_ijData.a) + (42));\n  output += '|';\n  output += ((opt_ijData.q == null) ? null : opt_ijData.q.z);\n" := by
+  decide +kernel
+
+example : (match walkCmds id { globals := [(b!"G_I", .int 42)] } sampleIj
+      { indent := 1, bufferName := b!"output", autoescape := .off, scope := ⟨[[]], 0⟩ } with
+    | .ok (_, ps, _) => some (printPieces ps)
+    | .error _ => none) = (toCmds .off b!"output" sampleIj ⟨[[]], 0⟩).map (fun r => printPieces (renderStmts false 1 r.1)) := by
+  decide +kernel
+
+example : (match toCmds .off b!"output" sampleIj ⟨[[]], 0⟩ with
+    | some r => (match execStmts sampleF noCall 10 r.1 ⟨[], some [(b!"a", .num 1), (b!"q", .obj [(b!"z", .num 9)])], [(b!"output", .str [])]⟩ with
+      | .ok e => (e.locals.find? (·.1 == b!"output")).map (·.2)
+      | _ => none)
+    | none => none) = some (.str b!"43|9") := rfl
+
+example : refCmds sampleF noRef .off sampleIj
+    { vars := [], loops := [], ij := some [(b!"a", .int 1), (b!"q", .map [(b!"z", .int 9)])], globals := [(b!"G_I", .int 42)] } =
+    .val b!"43|9" := rfl
+
+end ExamplesGlobals
+
 /-! ## what is proved, and what remains outside
 
   PROVED, for command lists built from raw text, `{print e |d…}` (directive arguments literal, every
   directive known to both backends), `{let $x: e /}`, `{if}/{elseif}/{else}`, `{foreach $x in e}` with
-  or without `{ifempty}`, `{for $i in range(…)}` with one to three arguments (the step absent or a
+  or without `{ifempty}`, `{for $i in range(…)}` / `{foreach $i in range(…)}` with one to three arguments, with or without
+  `{ifempty}` (after the loop and outside its frame `if (index == 0) {…}`: the index local counts the iterations — `range_core`;
+  the step absent or a
   positive integer literal: the specification leaves a non-positive step open, and JavaScript then
   loops forever or not at all), `{switch e}{case v, …}…{default}…{/switch}` (`===` on null / booleans /
   numbers / strings against the specification's equality; `undefined` and lists / maps as switch value or label
   are outside the subset), `{let $x}…{/let}` (`var x$n = ''; x$n += …;` — the body is translated with the
   new buffer; `GoodBuf`: the buffer in use is no local the scope hands out and no name still to be
   generated), `{call name}` / `{call name data="all"}` / `{call name data="$e"}` with `{param k: e /}` and
-  `{param k}…{/param}` (see CALLS below), `{msg}` without a bundle and without `{plural}` (`toParts`: its text, HTML-tag
-  and print / call placeholder parts in order, in a frame of their own; against Spec/Eval.renderParts with `hasBundle = false`:
+  `{param k}…{/param}` (see CALLS below), `{css name}` / `{css e, name}` (`buf += e + '-';` then the name, unescaped — Spec/JsStmt
+  `.appendCss`), `{debugger}` (`debugger;`: nothing), `{msg}` without a bundle (`toParts`: its text, HTML-tag
+  and print / call placeholder parts in order, in a frame of their own; a `{plural}` part is `switch (e) { case n: … break; …
+  default: … }` — Spec/JsStmt `.pluralS`, a NUMBER against the integer labels; over a value that is no number Soy stops with
+  an error while JavaScript takes the default clause: the semantics is `unspec` there, a C04 discrepancy of the backends; against Spec/Eval.renderParts with `hasBundle = false`:
   `plainCmd hasBundle`) — nested at will — with `e` in the expression
   fragment of Props/C04c (literals, arithmetic / comparison / logic, `?:`, `?:`-elvis, variables and
   parameters with `.k` / `[i]` / `?.k` accesses, length / isNonnull / floor / ceiling / round / min /
@@ -4938,9 +6099,11 @@ example : Spec.Eval.renderCmds [] false true [] (fun _ _ => .unspec) none sample
       their `var`s — every visible Soy variable is still held by its own local (`envRel_keep`); the
       loop (`loop_ok`): iteration `i` of `for (var i = 0; i < n; i++)` is iteration `i` of Spec/Eval's
       `loopSpec`, the body run with the item bound, the list / limit / index locals untouched by it;
-    * `ref_le_spec_cmds` / `gen_correct_cmds_spec` — without print directives and with
+    * `ref_le_spec_cmds` / `spec_le_ref_cmds` / `gen_correct_cmds_spec` — without print directives and with
       soy.$$escapeHtml read as `htmlEscape ∘ ToString` (`EscapeHtmlIs`, a LIBRARY obligation),
-      `refCmds` is Spec/Eval.renderCmds, the specification C02Spec proves the Go interpreter against.
+      `refCmds` renders exactly the texts Spec/Eval.renderCmds renders (both directions; the reference's print without
+      directives falls back to Spec/Eval's where the JSON image says nothing: `refPrint`), the specification C02Spec proves
+      the Go interpreter against.
   DIRECTION: "if the JavaScript completes, the specification yields that text".  The converse is
   Props/C04e (`gen_complete_cmds_partial`): where `refCmds` renders a text the JavaScript completes with
   it or leaves the common subset (`unspec`: a print of a list or a map is text in Soy and outside the
@@ -4970,8 +6133,8 @@ example : Spec.Eval.renderCmds [] false true [] (fun _ _ => .unspec) none sample
   runs the entry function through that table and compares with otto.
 
   OUTSIDE (no theorem at the command level): `range` with a computed step, `{call}` to a `{deltemplate}` (`{delcall}`),
-  the converse against Spec/Eval.render where the JavaScript THROWS (Props/C04f `gen_complete_registry_spec_partial`, hypothesis
-  `hthrow`), `{msg}` with a message bundle (translated parts) or with `{plural}`, `{css}`, `{log}`, `{debugger}`, `$ij`, globals, print directives with
+  `{msg}` with a message bundle (translated parts), `{log}` (its scratch buffer `output_` is a plain name:
+  the `Keeps` / `Old` discipline — only the output variable and names generated LATER change — has no room for it), `$ij` in a function called without injected data, globals that are floats / lists / maps, print directives with
   non-literal arguments, and
   the file level above the functions (namespace declarations, goog.provide / ES6 imports — covered for SHAPE by C14, not for
   meaning; the functions themselves: Props/C04f). -/
